@@ -10,7 +10,7 @@
          and preserve WF on the marked run (value_erase_WF);
      (3) `kill` sets the flag of o (the marked final state) and marks the results dead
          (WF_owner only loses obligations). *)
-From Coq Require Import ZArith List Bool PArith FMapPositive Lia.
+From Coq Require Import ZArith List Bool PArith FMapPositive Lia FinFun.
 From XV Require Import C01.Model C01.Spec C01.ProofsBase C01.ProofsFrame C01.ProofsUses C01.ProofsOperands
   C01.ProofsRauw C01.ProofsSetOperands C01.ProofsOps C01.ProofsBlocks.
 Import ListNotations.
@@ -680,4 +680,1583 @@ Corollary rw_erase_op_noregions_live_WF : forall s s' o safe r,
   rw_erase_op o safe s = (s', Ok r) -> WF s'.
 Proof.
   intros s s' o safe r W (x & F & E) NR BL H. eapply rw_erase_op_noregions_WF; eauto.
+Qed.
+
+(* ================================================================== Step C: operations WITH regions
+
+   The whole tree below the op is walked by drop_all_references (mutual recursion over ops / regions /
+   blocks).  `collect_op` (the ghost list of everything that `kill` marks) has exactly the recursion
+   structure of the walk, so the walk is analysed by induction on the common fuel:
+     - `Inv s X st`: the state st after the nodes X (a prefix of the collected list) have been dropped,
+       described table by table relative to the initial state s, with the use-list invariant
+       `Uabs st (real_slot s minus the slots of the ops in X)`;
+     - `walk`: each of the five mutually recursive functions extends X by its collected list, provided
+       the collected list has no duplicates (the tree below the op is a tree) and its ops are live;
+     - `closure`: the collected list is closed under `parent` (WF + liveness), hence the fields that the
+       walk clears belong to nodes that no live container outside the list refers to;
+     - `fin_WF`: the walked state with everything collected marked erased/dead is WF;
+     - `simT`: the remaining value_erase calls commute with the marks; `kill_spec`: `kill` sets the marks;
+     - `collect_op_NoDup`: no duplicates, from WF + liveness + `parent = None` at the root (depth argument). *)
+(* ------------------------------------------------------------------ membership in gnode lists *)
+
+Definition gnode_eqb (a b : gnode) : bool :=
+  match a, b with
+  | GOp x, GOp y | GBlock x, GBlock y | GRegion x, GRegion y | GValue x, GValue y => Pos.eqb x y
+  | _, _ => false
+  end.
+Lemma gnode_eqb_spec : forall a b, reflect (a = b) (gnode_eqb a b).
+Proof.
+  intros [x|x|x|x] [y|y|y|y]; simpl; try (constructor; discriminate);
+    destruct (Pos.eqb_spec x y); constructor; congruence.
+Qed.
+Fixpoint gmem (g : gnode) (l : list gnode) : bool :=
+  match l with [] => false | y :: r => gnode_eqb g y || gmem g r end.
+Lemma gmem_In : forall g l, gmem g l = true <-> In g l.
+Proof.
+  intros g l. induction l as [|y r IH]; simpl; [split; [discriminate|tauto]|].
+  rewrite orb_true_iff, IH. destruct (gnode_eqb_spec g y) as [E|N]; split; intros [H|H]; auto;
+    first [discriminate|congruence].
+Qed.
+Lemma gmem_false : forall g l, gmem g l = false <-> ~ In g l.
+Proof.
+  intros g l. rewrite <- gmem_In. destruct (gmem g l); split; intro H;
+    first [congruence|reflexivity|exfalso; apply H; reflexivity].
+Qed.
+Lemma gmem_app : forall g l1 l2, gmem g (l1 ++ l2) = gmem g l1 || gmem g l2.
+Proof. intros g l1 l2. induction l1 as [|y r IH]; simpl; [reflexivity|]. rewrite IH, orb_assoc. reflexivity. Qed.
+
+Definition isnode (g : gnode) : bool := match g with GValue _ => false | _ => true end.
+Lemma gmem_values : forall g l, isnode g = true -> gmem g (map GValue l) = false.
+Proof. intros g l N. induction l as [|v r IH]; simpl; [reflexivity|]. rewrite IH. destruct g; try discriminate; reflexivity. Qed.
+
+(* ------------------------------------------------------------------ unfolding *)
+
+Lemma region_drop_S : forall f r, region_drop_all_references (S f) r =
+  (updR r (set_r_parent None) ;;; rr <- getR r ;; blocks_drop_from f (r_first rr)).
+Proof. reflexivity. Qed.
+Lemma blocks_drop_S : forall f cur, blocks_drop_from (S f) cur =
+  match cur with
+  | None => ret tt
+  | Some b => br <- getB b ;; let nxt := b_next br in block_drop_all_references f b ;;; blocks_drop_from f nxt
+  end.
+Proof. reflexivity. Qed.
+Lemma block_drop_S : forall f b, block_drop_all_references (S f) b =
+  (updB b (set_b_parent None) ;;; updB b (set_b_next None) ;;; updB b (set_b_prev None) ;;;
+   br <- getB b ;; ops_drop_from f (b_first_op br)).
+Proof. reflexivity. Qed.
+Lemma ops_drop_S : forall f cur, ops_drop_from (S f) cur =
+  match cur with
+  | None => ret tt
+  | Some o => orec <- getO o ;; let nxt := o_next orec in op_drop_all_references f o ;;; ops_drop_from f nxt
+  end.
+Proof. reflexivity. Qed.
+
+Lemma collect_region_S : forall f s r, collect_region (S f) s r =
+  match PM.find r (s_regions s) with None => [] | Some x => GRegion r :: collect_blocks_from f s (r_first x) end.
+Proof. reflexivity. Qed.
+Lemma collect_blocks_S : forall f s cur, collect_blocks_from (S f) s cur =
+  match cur with
+  | None => []
+  | Some b => match PM.find b (s_blocks s) with
+              | None => []
+              | Some x => collect_block f s b ++ collect_blocks_from f s (b_next x)
+              end
+  end.
+Proof. reflexivity. Qed.
+Lemma collect_block_S : forall f s b, collect_block (S f) s b =
+  match PM.find b (s_blocks s) with
+  | None => []
+  | Some x => GBlock b :: map GValue (b_args x) ++ collect_ops_from f s (b_first_op x)
+  end.
+Proof. reflexivity. Qed.
+Lemma collect_ops_S : forall f s cur, collect_ops_from (S f) s cur =
+  match cur with
+  | None => []
+  | Some o => match PM.find o (s_ops s) with
+              | None => []
+              | Some x => collect_op f s o ++ collect_ops_from f s (o_next x)
+              end
+  end.
+Proof. reflexivity. Qed.
+
+(* ------------------------------------------------------------------ frame of the use-list programs *)
+
+Definition nofu (x : block_rec) : block_rec := set_b_first_use None x.
+
+Definition useonly (s s' : state) : Prop :=
+  s_ops s' = s_ops s /\ s_regions s' = s_regions s /\
+  agree nofu (s_blocks s) (s_blocks s') /\ agree pI_val (s_values s) (s_values s') /\ same_A s s'.
+
+Lemma fr_useonly : frame_rel useonly.
+Proof.
+  split.
+  - intro s. unfold useonly. repeat (split; [first [reflexivity|apply agree_refl]|]). apply fr_A.
+  - intros s1 s2 s3 (A1 & A2 & A3 & A4 & A5) (B1 & B2 & B3 & B4 & B5). unfold useonly.
+    split; [congruence|]. split; [congruence|]. split; [eapply agree_trans; eauto|].
+    split; [eapply agree_trans; eauto|]. eapply (fr_trans _ fr_A); eauto.
+Qed.
+
+Lemma updU_useonly : forall u f, preserves useonly (updU u f).
+Proof.
+  intros u f s s' r H. pose proof (updU_same_A u f s s' r H) as SA.
+  unfold updU in H. destruct (PM.find u (s_uses s)); injection H as <- _; [|apply fr_useonly].
+  unfold useonly. simpl. repeat (split; [first [reflexivity|apply agree_refl]|]). exact SA.
+Qed.
+Lemma updV_fu_useonly : forall v u, preserves useonly (updV v (set_v_first_use u)).
+Proof.
+  intros v u s s' r H. pose proof (updV_same_A _ _ s s' r H) as SA.
+  unfold updV in H. destruct (PM.find v (s_values s)) eqn:F; injection H as <- _; [|apply fr_useonly].
+  unfold useonly. simpl. split; [reflexivity|]. split; [reflexivity|]. split; [apply agree_refl|].
+  split; [|exact SA]. eapply agree_add; eauto.
+Qed.
+Lemma updB_fu_useonly : forall b u, preserves useonly (updB b (set_b_first_use u)).
+Proof.
+  intros b u s s' r H. pose proof (updB_same_A _ _ s s' r H) as SA.
+  unfold updB in H. destruct (PM.find b (s_blocks s)) eqn:F; injection H as <- _; [|apply fr_useonly].
+  unfold useonly. simpl. split; [reflexivity|]. split; [reflexivity|]. split; [|split; [apply agree_refl|exact SA]].
+  eapply agree_add; eauto.
+Qed.
+#[export] Hint Resolve updU_useonly updV_fu_useonly updB_fu_useonly fr_useonly : pres.
+
+Lemma set_first_use_useonly : forall h u, preserves useonly (set_first_use h u).
+Proof. intros h u. unfold set_first_use. destruct h; auto with pres. Qed.
+#[export] Hint Resolve set_first_use_useonly : pres.
+Lemma remove_use_useonly : forall h u, preserves useonly (remove_use h u).
+Proof. intros. unfold remove_use. pres fr_useonly. Qed.
+Lemma remove_loop_useonly : forall (mk : positive -> holder) (pairs : list (positive * uid)),
+  preserves useonly (forM pairs (fun p => remove_use (mk (fst p)) (snd p))).
+Proof. intros. apply (pres_forM _ fr_useonly). intro a. apply remove_use_useonly. Qed.
+
+(* ------------------------------------------------------------------ the state during the tree walk *)
+
+Definition drop_op (x : op_rec) : op_rec :=
+  mkOp (o_operands x) [] (o_results x) [] [] (o_regions x) None (o_next x) (o_prev x) (o_erased x).
+Definition drop_blk (x : block_rec) : block_rec :=
+  mkBlock (b_args x) (b_first_op x) (b_last_op x) None None None (b_first_use x) (b_erased x).
+Definition drop_reg (x : region_rec) : region_rec := set_r_parent None x.
+
+Definition minus_ops (S : slotrel) (X : list gnode) : slotrel :=
+  fun h o i u => S h o i u /\ gmem (GOp o) X = false.
+
+Record Tab (s : state) (X : list gnode) (st : state) : Prop := {
+  tb_ops : forall i, PM.find i (s_ops st) =
+     if gmem (GOp i) X then option_map drop_op (PM.find i (s_ops s)) else PM.find i (s_ops s);
+  tb_regs : forall i, PM.find i (s_regions st) =
+     if gmem (GRegion i) X then option_map drop_reg (PM.find i (s_regions s)) else PM.find i (s_regions s);
+  tb_blks : forall i, option_map nofu (PM.find i (s_blocks st)) =
+     if gmem (GBlock i) X then option_map (fun x => nofu (drop_blk x)) (PM.find i (s_blocks s))
+     else option_map nofu (PM.find i (s_blocks s));
+  tb_vals : agree pI_val (s_values s) (s_values st);
+  tb_A : same_A s st }.
+
+Definition Inv (s : state) (X : list gnode) (st : state) : Prop :=
+  Tab s X st /\ Uabs st (minus_ops (real_slot s) X).
+
+(* everything but the op table *)
+Definition opsfree (s s' : state) : Prop :=
+  s_regions s' = s_regions s /\ agree nofu (s_blocks s) (s_blocks s') /\
+  agree pI_val (s_values s) (s_values s') /\ same_A s s'.
+Lemma opsfree_refl : forall s, opsfree s s.
+Proof. intro s. split; [reflexivity|]. split; [apply agree_refl|]. split; [apply agree_refl|apply fr_A]. Qed.
+Lemma opsfree_trans : forall s1 s2 s3, opsfree s1 s2 -> opsfree s2 s3 -> opsfree s1 s3.
+Proof.
+  intros s1 s2 s3 (A2 & A3 & A4 & A5) (B2 & B3 & B4 & B5). split; [congruence|].
+  split; [eapply agree_trans; eauto|]. split; [eapply agree_trans; eauto|eapply (fr_trans _ fr_A); eauto].
+Qed.
+Lemma useonly_opsfree : forall s s', useonly s s' -> opsfree s s'.
+Proof. intros s s' (_ & A2 & A3 & A4 & A5). split; [exact A2|]. split; [exact A3|]. split; assumption. Qed.
+Lemma updO_opsfree : forall o f s s' r, updO o f s = (s', r) -> opsfree s s'.
+Proof.
+  intros o f s s' r H. pose proof (updO_same_A o f s s' r H) as SA.
+  unfold updO in H. destruct (PM.find o (s_ops s)); injection H as <- _; [|apply opsfree_refl].
+  split; [reflexivity|]. split; [apply agree_refl|]. split; [apply agree_refl|exact SA].
+Qed.
+
+Lemma Tab_opsfree : forall s X st st', Tab s X st -> opsfree st st' ->
+  (forall i, PM.find i (s_ops st') = PM.find i (s_ops st)) -> Tab s X st'.
+Proof.
+  intros s X st st' [T1 T2 T3 T4 T5] (A2 & A3 & A4 & A5) EO. constructor.
+  - intro i. rewrite EO. apply T1.
+  - intro i. rewrite A2. apply T2.
+  - intro i. rewrite (A3 i). apply T3.
+  - eapply agree_trans; eauto.
+  - eapply (fr_trans _ fr_A); eauto.
+Qed.
+
+Lemma Tab_ext : forall s X X' st, (forall g, isnode g = true -> gmem g X' = gmem g X) -> Tab s X st -> Tab s X' st.
+Proof.
+  intros s X X' st E [T1 T2 T3 T4 T5]. constructor; try assumption.
+  - intro i. rewrite (E (GOp i) eq_refl). apply T1.
+  - intro i. rewrite (E (GRegion i) eq_refl). apply T2.
+  - intro i. rewrite (E (GBlock i) eq_refl). apply T3.
+Qed.
+
+Lemma Uabs_slots : forall s S S', (forall h o i u, S' h o i u <-> S h o i u) -> Uabs s S -> Uabs s S'.
+Proof. intros s S S' E UA. eapply Uabs_ext; [| |exact E|exact UA]; intros; reflexivity. Qed.
+
+Lemma Inv_ext : forall s X X' st, (forall g, isnode g = true -> gmem g X' = gmem g X) -> Inv s X st -> Inv s X' st.
+Proof.
+  intros s X X' st E [T U]. split; [eapply Tab_ext; eauto|].
+  eapply Uabs_slots; [|exact U]. intros h o i u. unfold minus_ops. rewrite (E (GOp o) eq_refl). tauto.
+Qed.
+
+Lemma Inv_values : forall s X l st, Inv s X st -> Inv s (X ++ map GValue l) st.
+Proof.
+  intros s X l st I. eapply Inv_ext; [|exact I]. intros g N. rewrite gmem_app, (gmem_values g l N), orb_false_r. reflexivity.
+Qed.
+
+(* ------------------------------------------------------------------ the own part of a region *)
+
+Lemma reg_own : forall s X st st' r u S,
+  Tab s X st -> gmem (GRegion r) X = false -> updR r (set_r_parent None) st = (st', Ok u) ->
+  Tab s (X ++ [GRegion r]) st' /\ (Uabs st S -> Uabs st' S) /\
+  exists x, PM.find r (s_regions s) = Some x /\ PM.find r (s_regions st') = Some (drop_reg x).
+Proof.
+  intros s X st st' r u S [T1 T2 T3 T4 T5] NX H.
+  pose proof (updR_same_A _ _ _ _ _ H) as SA.
+  apply updR_ok in H as (x & F & ->). rewrite T2, NX in F.
+  split; [|split].
+  - constructor; simpl.
+    + intro i. rewrite gmem_app. simpl. rewrite orb_false_r. apply T1.
+    + intro i. rewrite find_add, gmem_app. simpl. rewrite orb_false_r.
+      destruct (Pos.eqb_spec i r) as [->|N].
+      * rewrite orb_true_r, F. reflexivity.
+      * rewrite orb_false_r. apply T2.
+    + intro i. rewrite gmem_app. simpl. rewrite orb_false_r. apply T3.
+    + exact T4.
+    + eapply (fr_trans _ fr_A); eauto.
+  - intro UA. eapply Uabs_irrel; [| | |exact UA]; reflexivity.
+  - exists x. split; [exact F|]. simpl. rewrite find_add_same. reflexivity.
+Qed.
+
+(* ------------------------------------------------------------------ the own part of a block *)
+
+Lemma nofu_inj_fields : forall x y, nofu x = nofu y ->
+  b_args x = b_args y /\ b_first_op x = b_first_op y /\ b_last_op x = b_last_op y /\ b_next x = b_next y /\
+  b_prev x = b_prev y /\ b_parent x = b_parent y /\ b_erased x = b_erased y.
+Proof. intros x y H. unfold nofu, set_b_first_use in H. injection H. intros. repeat split; assumption. Qed.
+
+Lemma Some_inj : forall {A} (a b : A), Some a = Some b -> a = b.
+Proof. intros A a b H. injection H as H. exact H. Qed.
+
+Lemma blk_own : forall s X st s1 s2 s3 b u1 u2 u3 S,
+  Tab s X st -> gmem (GBlock b) X = false ->
+  updB b (set_b_parent None) st = (s1, Ok u1) -> updB b (set_b_next None) s1 = (s2, Ok u2) ->
+  updB b (set_b_prev None) s2 = (s3, Ok u3) ->
+  Tab s (X ++ [GBlock b]) s3 /\ (Uabs st S -> Uabs s3 S) /\
+  exists x x3, PM.find b (s_blocks s) = Some x /\ PM.find b (s_blocks s3) = Some x3 /\ b_first_op x3 = b_first_op x.
+Proof.
+  intros s X st s1 s2 s3 b u1 u2 u3 S [T1 T2 T3 T4 T5] NX H1 H2 H3.
+  assert (SA : same_A st s3).
+  { eapply (fr_trans _ fr_A); [eapply updB_same_A; exact H1|].
+    eapply (fr_trans _ fr_A); [eapply updB_same_A; exact H2|eapply updB_same_A; exact H3]. }
+  apply updB_ok in H1 as (x0 & F0 & ->). apply updB_ok in H2 as (x1 & F1 & ->). apply updB_ok in H3 as (x2 & F2 & ->).
+  simpl in F1. rewrite find_add_same in F1. injection F1 as <-.
+  simpl in F2. rewrite find_add_same in F2. injection F2 as <-.
+  pose proof (T3 b) as Tb. rewrite NX, F0 in Tb.
+  destruct (PM.find b (s_blocks s)) as [x|] eqn:Fx; [|discriminate].
+  apply (Some_inj (nofu x0) (nofu x)) in Tb.
+  destruct (nofu_inj_fields _ _ Tb) as (E1 & E2 & E3 & E4 & E5 & E6 & E7).
+  assert (FB : forall i, PM.find i (PM.add b (set_b_prev None (set_b_next None (set_b_parent None x0)))
+                 (PM.add b (set_b_next None (set_b_parent None x0)) (PM.add b (set_b_parent None x0) (s_blocks st)))) =
+               if Pos.eqb i b then Some (set_b_prev None (set_b_next None (set_b_parent None x0))) else PM.find i (s_blocks st)).
+  { intro i. rewrite !find_add. destruct (Pos.eqb i b); reflexivity. }
+  split; [|split].
+  - constructor; simpl.
+    + intro i. rewrite gmem_app. simpl. rewrite orb_false_r. apply T1.
+    + intro i. rewrite gmem_app. simpl. rewrite orb_false_r. apply T2.
+    + intro i. rewrite FB, gmem_app. simpl. rewrite orb_false_r.
+      destruct (Pos.eqb_spec i b) as [->|N].
+      * rewrite orb_true_r, Fx. simpl. f_equal. unfold nofu, drop_blk, set_b_first_use. simpl.
+        rewrite E1, E2, E3, E7. reflexivity.
+      * rewrite orb_false_r. apply T3.
+    + exact T4.
+    + eapply (fr_trans _ fr_A); eauto.
+  - intro UA. eapply Uabs_ext; [| | |exact UA].
+    + intro y. reflexivity.
+    + intros [v|b']; simpl; [reflexivity|]. unfold link. rewrite FB.
+      destruct (Pos.eqb_spec b' b) as [->|]; [rewrite F0|]; reflexivity.
+    + intros; tauto.
+  - exists x. eexists. split; [reflexivity|]. simpl. rewrite find_add_same. split; [reflexivity|]. simpl. exact E2.
+Qed.
+
+Lemma map_snd_zip_len : forall {A B} (l : list A) (l' : list B), length l = length l' -> map snd (zip l l') = l'.
+Proof.
+  intros A B l. induction l as [|a t IH]; intros [|b t'] L; simpl in *; try discriminate; try reflexivity.
+  f_equal. apply IH. lia.
+Qed.
+
+Lemma op_own_run : forall s X st sa sb sc sd se sf o x u1 u2 u3 u4 u5 u6,
+  Uabs s (real_slot s) -> lens_ok s -> WF_disjoint s ->
+  PM.find o (s_ops s) = Some x -> o_erased x = false ->
+  Inv s X st -> gmem (GOp o) X = false ->
+  updO o (set_o_parent None) st = (sa, Ok u1) ->
+  forM (zip (o_operands x) (o_operand_uses x)) (fun p => remove_use (HV (fst p)) (snd p)) sa = (sb, Ok u2) ->
+  updO o (set_o_operand_uses []) sb = (sc, Ok u3) ->
+  forM (zip (o_successors x) (o_successor_uses x)) (fun p => remove_use (HB (fst p)) (snd p)) sc = (sd, Ok u4) ->
+  updO o (set_o_successor_uses []) sd = (se, Ok u5) ->
+  updO o (set_o_successors []) se = (sf, Ok u6) ->
+  Inv s (X ++ [GOp o]) sf.
+Proof.
+  intros s X st sa sb sc sd se sf o x u1 u2 u3 u4 u5 u6 UA LN WD Fx Ex [T U] NX Ha Hl1 Hc Hl2 He Hf.
+  destruct (LN o x Fx Ex) as [Len1 Len2].
+  assert (F0 : PM.find o (s_ops st) = Some x) by (rewrite (tb_ops _ _ _ T), NX; exact Fx).
+  (* frame *)
+  pose proof (updO_opsfree _ _ _ _ _ Ha) as Q1.
+  pose proof (remove_loop_useonly HV _ _ _ _ Hl1) as Q2.
+  pose proof (updO_opsfree _ _ _ _ _ Hc) as Q3.
+  pose proof (remove_loop_useonly HB _ _ _ _ Hl2) as Q4.
+  pose proof (updO_opsfree _ _ _ _ _ He) as Q5.
+  pose proof (updO_opsfree _ _ _ _ _ Hf) as Q6.
+  assert (QF : opsfree st sf).
+  { eapply opsfree_trans; [exact Q1|]. eapply opsfree_trans; [apply useonly_opsfree; exact Q2|].
+    eapply opsfree_trans; [exact Q3|]. eapply opsfree_trans; [apply useonly_opsfree; exact Q4|].
+    eapply opsfree_trans; [exact Q5|exact Q6]. }
+  (* the op table *)
+  apply updO_ok in Ha as (xa & Fa & Ea). rewrite F0 in Fa. injection Fa as <-.
+  assert (Oa : s_ops sa = PM.add o (set_o_parent None x) (s_ops st)) by (rewrite Ea; reflexivity).
+  assert (Ob : s_ops sb = s_ops sa) by (apply Q2).
+  apply updO_ok in Hc as (xc & Fc & Ec). rewrite Ob, Oa, find_add_same in Fc. injection Fc as <-.
+  assert (Oc : s_ops sc = PM.add o (set_o_operand_uses [] (set_o_parent None x)) (s_ops sb)) by (rewrite Ec; reflexivity).
+  assert (Od : s_ops sd = s_ops sc) by (apply Q4).
+  apply updO_ok in He as (xe & Fe & Ee). rewrite Od, Oc, find_add_same in Fe. injection Fe as <-.
+  assert (Oe : s_ops se = PM.add o (set_o_successor_uses [] (set_o_operand_uses [] (set_o_parent None x))) (s_ops sd))
+    by (rewrite Ee; reflexivity).
+  apply updO_ok in Hf as (xf & Ff & Ef). rewrite Oe, find_add_same in Ff. injection Ff as <-.
+  assert (FO : forall i, PM.find i (s_ops sf) = if Pos.eqb i o then Some (drop_op x) else PM.find i (s_ops st)).
+  { intro i. rewrite Ef. simpl. rewrite Oe, Od, Oc, Ob, Oa, !find_add. destruct (Pos.eqb i o); reflexivity. }
+  split.
+  - (* tables *)
+    destruct T as [T1 T2 T3 T4 T5]. destruct QF as (A2 & A3 & A4 & A5). constructor.
+    + intro i. rewrite FO, gmem_app. simpl. rewrite orb_false_r.
+      destruct (Pos.eqb_spec i o) as [->|N].
+      * rewrite orb_true_r, Fx. reflexivity.
+      * rewrite orb_false_r. apply T1.
+    + intro i. rewrite A2, gmem_app. simpl. rewrite orb_false_r. apply T2.
+    + intro i. rewrite (A3 i), gmem_app. simpl. rewrite orb_false_r. apply T3.
+    + eapply agree_trans; eauto.
+    + eapply (fr_trans _ fr_A); eauto.
+  - (* use lists *)
+    set (S0 := minus_ops (real_slot s) X) in *.
+    assert (UAa : Uabs sa S0) by (eapply Uabs_irrel; [| | |exact U]; rewrite Ea; reflexivity).
+    assert (INV1 : forall k v u, nth_error (zip (o_operands x) (o_operand_uses x)) k = Some (v, u) ->
+                     S0 (HV v) o (0 + Z.of_nat k) u).
+    { intros k v u N. apply nth_error_zip in N. destruct N as [N1' N2']. split; [|exact NX].
+      exists x. simpl. rewrite !znth_of_nat. auto. }
+    destruct (remove_loop_g HV _ _ sb S0 o 0 _ UAa INV1 Hl1) as (UAb & _ & _).
+    assert (UAb' : Uabs sb (minus_uses S0 (o_operand_uses x))).
+    { rewrite <- (map_snd_zip_len (o_operands x) (o_operand_uses x) Len1). exact UAb. }
+    assert (UAc : Uabs sc (minus_uses S0 (o_operand_uses x))).
+    { eapply Uabs_irrel; [| | |exact UAb']; rewrite Ec; reflexivity. }
+    assert (INV2 : forall k b u, nth_error (zip (o_successors x) (o_successor_uses x)) k = Some (b, u) ->
+                     minus_uses S0 (o_operand_uses x) (HB b) o (0 + Z.of_nat k) u).
+    { intros k b u N. apply nth_error_zip in N. destruct N as [N1' N2']. split.
+      - split; [|exact NX]. exists x. simpl. rewrite !znth_of_nat. auto.
+      - intro I. eapply (WD o x Fx Ex u I). eapply nth_error_In; eauto. }
+    destruct (remove_loop_g HB _ _ sd _ o 0 _ UAc INV2 Hl2) as (UAd & _ & _).
+    assert (UAd' : Uabs sd (minus_uses (minus_uses S0 (o_operand_uses x)) (o_successor_uses x))).
+    { rewrite <- (map_snd_zip_len (o_successors x) (o_successor_uses x) Len2). exact UAd. }
+    assert (UAf : Uabs sf (minus_uses (minus_uses S0 (o_operand_uses x)) (o_successor_uses x))).
+    { eapply Uabs_irrel; [| | |exact UAd']; rewrite Ef, Ee; reflexivity. }
+    eapply Uabs_slots; [|exact UAf]. intros h o' i u. unfold S0, minus_ops, minus_uses. rewrite gmem_app. simpl.
+    rewrite orb_false_r. split.
+    + intros [R G]. apply orb_false_iff in G. destruct G as [G1 G2].
+      assert (No : o' <> o) by (intro E; subst; rewrite Pos.eqb_refl in G2; discriminate).
+      assert (NI : ~ (In u (o_operand_uses x) \/ In u (o_successor_uses x))).
+      { intro I. destruct (slot_of_uses s o x u LN Fx Ex I) as (h2 & i2 & R2).
+        destruct (ua_slot _ _ UA _ _ _ _ R) as [I1 _]. destruct (ua_slot _ _ UA _ _ _ _ R2) as [I2 _].
+        rewrite I1 in I2. injection I2 as E _. contradiction. }
+      split; [split; [split; assumption|]|]; intro I; apply NI; auto.
+    + intros [[[R G1] N1] N2]. split; [exact R|]. rewrite G1. simpl.
+      destruct (Pos.eqb_spec o' o) as [->|]; [|reflexivity]. exfalso.
+      destruct R as (x' & F' & E' & Z1 & Z2). rewrite Fx in F'. injection F' as <-. apply znth_In in Z2.
+      destruct h; simpl in Z2; contradiction.
+Qed.
+
+Definition ops_live (s : state) (L : list gnode) : Prop := forall i, In (GOp i) L -> op_live s i.
+
+Lemma ops_live_app : forall s A B, ops_live s (A ++ B) -> ops_live s A /\ ops_live s B.
+Proof. intros s A B H. split; intros i I; apply H; apply in_or_app; auto. Qed.
+
+Lemma nodup_head_notin : forall (X : list gnode) g R post, NoDup (X ++ (g :: R) ++ post) -> gmem g X = false.
+Proof.
+  intros X g R post ND. apply gmem_false. intro I. destruct (NoDup_app_inv _ _ ND) as (_ & _ & D).
+  apply (D g I). left. reflexivity.
+Qed.
+
+Section Walk.
+  Variable s : state.
+  Hypothesis UA : Uabs s (real_slot s).
+  Hypothesis LN : lens_ok s.
+  Hypothesis WD : WF_disjoint s.
+
+  Definition W_op (f : nat) : Prop := forall o X post st st' r,
+    NoDup (X ++ collect_op f s o ++ post) -> Inv s X st -> ops_live s (collect_op f s o) ->
+    op_drop_all_references f o st = (st', Ok r) -> Inv s (X ++ collect_op f s o) st'.
+  Definition W_region (f : nat) : Prop := forall x X post st st' r,
+    NoDup (X ++ collect_region f s x ++ post) -> Inv s X st -> ops_live s (collect_region f s x) ->
+    region_drop_all_references f x st = (st', Ok r) -> Inv s (X ++ collect_region f s x) st'.
+  Definition W_blocks (f : nat) : Prop := forall cur X post st st' r,
+    NoDup (X ++ collect_blocks_from f s cur ++ post) -> Inv s X st -> ops_live s (collect_blocks_from f s cur) ->
+    blocks_drop_from f cur st = (st', Ok r) -> Inv s (X ++ collect_blocks_from f s cur) st'.
+  Definition W_block (f : nat) : Prop := forall b X post st st' r,
+    NoDup (X ++ collect_block f s b ++ post) -> Inv s X st -> ops_live s (collect_block f s b) ->
+    block_drop_all_references f b st = (st', Ok r) -> Inv s (X ++ collect_block f s b) st'.
+  Definition W_ops (f : nat) : Prop := forall cur X post st st' r,
+    NoDup (X ++ collect_ops_from f s cur ++ post) -> Inv s X st -> ops_live s (collect_ops_from f s cur) ->
+    ops_drop_from f cur st = (st', Ok r) -> Inv s (X ++ collect_ops_from f s cur) st'.
+
+  Lemma regions_loop : forall f, W_region f -> forall rs X post st st' r,
+    NoDup (X ++ flat_map (collect_region f s) rs ++ post) -> Inv s X st ->
+    ops_live s (flat_map (collect_region f s) rs) ->
+    forM rs (fun x => region_drop_all_references f x) st = (st', Ok r) ->
+    Inv s (X ++ flat_map (collect_region f s) rs) st'.
+  Proof.
+    intros f WR. induction rs as [|x rest IH]; intros X post st st' r ND I OL H; simpl in H.
+    - apply ret_ok in H as [-> _]. simpl. rewrite app_nil_r. exact I.
+    - apply bind_ok in H as (s1 & [] & H1 & H2). simpl in *.
+      apply ops_live_app in OL. destruct OL as [OL1 OL2].
+      rewrite <- app_assoc in ND.
+      pose proof (WR x X _ st s1 _ ND I OL1 H1) as I1.
+      rewrite app_assoc in ND.
+      pose proof (IH _ post s1 st' r ND I1 OL2 H2) as I2. rewrite <- app_assoc in I2. exact I2.
+  Qed.
+
+  Lemma find_op_back : forall X st i y, Tab s X st -> PM.find i (s_ops st) = Some y ->
+    exists x, PM.find i (s_ops s) = Some x.
+  Proof.
+    intros X st i y T F. rewrite (tb_ops _ _ _ T) in F.
+    destruct (PM.find i (s_ops s)) as [x|]; [eauto|]. destruct (gmem (GOp i) X); discriminate.
+  Qed.
+  Lemma find_reg_back : forall X st i y, Tab s X st -> PM.find i (s_regions st) = Some y ->
+    exists x, PM.find i (s_regions s) = Some x.
+  Proof.
+    intros X st i y T F. rewrite (tb_regs _ _ _ T) in F.
+    destruct (PM.find i (s_regions s)) as [x|]; [eauto|]. destruct (gmem (GRegion i) X); discriminate.
+  Qed.
+  Lemma find_blk_back : forall X st i y, Tab s X st -> PM.find i (s_blocks st) = Some y ->
+    exists x, PM.find i (s_blocks s) = Some x.
+  Proof.
+    intros X st i y T F. pose proof (tb_blks _ _ _ T i) as Q. rewrite F in Q.
+    destruct (PM.find i (s_blocks s)) as [x|]; [eauto|]. destruct (gmem (GBlock i) X); discriminate.
+  Qed.
+
+  Lemma walk_op_step : forall f, W_region f -> W_op (S f).
+  Proof.
+    intros f WR o X post st st' r ND [T U] OL H.
+    rewrite op_drop_S in H.
+    apply bind_ok in H as (sa & [] & Ha & H).
+    assert (exists x, PM.find o (s_ops s) = Some x) as (x & Fx).
+    { apply updO_ok in Ha as (y & Fy & _). eapply find_op_back; eauto. }
+    rewrite collect_op_S, Fx in *.
+    pose proof (nodup_head_notin _ _ _ _ ND) as NX.
+    destruct (OL o (or_introl eq_refl)) as (x' & Fx' & Ex). rewrite Fx in Fx'. injection Fx' as <-.
+    assert (F0 : PM.find o (s_ops st) = Some x) by (rewrite (tb_ops _ _ _ T), NX; exact Fx).
+    apply bind_ok in H as (sa' & orec & Hg & H). apply getO_ok in Hg as [-> Fo].
+    assert (orec = set_o_parent None x).
+    { apply updO_ok in Ha as (y & Fy & ->). rewrite F0 in Fy. injection Fy as <-.
+      simpl in Fo. rewrite find_add_same in Fo. congruence. }
+    subst orec. simpl in H.
+    apply bind_ok in H as (sb & [] & Hl1 & H).
+    apply bind_ok in H as (sc & [] & Hc & H).
+    apply bind_ok in H as (sd & [] & Hl2 & H).
+    apply bind_ok in H as (se & [] & He & H).
+    apply bind_ok in H as (sf & [] & Hf & H).
+    pose proof (op_own_run s X st sa sb sc sd se sf o x _ _ _ _ _ _ UA LN WD Fx Ex (conj T U) NX Ha Hl1 Hc Hl2 He Hf) as I1.
+    apply (Inv_values _ _ (o_results x)) in I1.
+    assert (EQ : forall (F post' : list gnode),
+              X ++ (GOp o :: map GValue (o_results x) ++ F) ++ post' =
+              ((X ++ [GOp o]) ++ map GValue (o_results x)) ++ F ++ post').
+    { intros F post'. rewrite <- !app_assoc. simpl. rewrite <- !app_assoc. reflexivity. }
+    rewrite EQ in ND.
+    assert (OL2 : ops_live s (flat_map (collect_region f s) (o_regions x))).
+    { intros i Ii. apply OL. right. apply in_or_app. right. exact Ii. }
+    pose proof (regions_loop f WR _ _ _ _ _ _ ND I1 OL2 H) as I2.
+    pose proof (EQ (flat_map (collect_region f s) (o_regions x)) []) as EQ2. rewrite !app_nil_r in EQ2.
+    rewrite EQ2. exact I2.
+  Qed.
+
+  Lemma walk_region_step : forall f, W_blocks f -> W_region (S f).
+  Proof.
+    intros f WB x X post st st' r ND [T U] OL H.
+    rewrite region_drop_S in H.
+    apply bind_ok in H as (s1 & [] & H1 & H).
+    assert (exists xr, PM.find x (s_regions s) = Some xr) as (xr & Fx).
+    { pose proof H1 as H1'. apply updR_ok in H1' as (y & Fy & _). eapply find_reg_back; eauto. }
+    rewrite collect_region_S, Fx in *.
+    pose proof (nodup_head_notin _ _ _ _ ND) as NX.
+    destruct (reg_own s X st s1 x _ (minus_ops (real_slot s) X) T NX H1) as (T1 & U1 & xr' & Fx' & F1).
+    rewrite Fx in Fx'. injection Fx' as <-.
+    apply bind_ok in H as (s1' & rr & Hg & H). apply getR_ok in Hg as [-> Fr]. rewrite F1 in Fr. injection Fr as <-.
+    simpl in H.
+    assert (I1 : Inv s (X ++ [GRegion x]) s1).
+    { split; [exact T1|]. eapply Uabs_slots; [|exact (U1 U)]. intros h o i u. unfold minus_ops.
+      rewrite gmem_app. simpl. rewrite orb_false_r. tauto. }
+    assert (EQ : forall (F post' : list gnode), X ++ (GRegion x :: F) ++ post' = (X ++ [GRegion x]) ++ F ++ post').
+    { intros F post'. rewrite <- !app_assoc. reflexivity. }
+    rewrite EQ in ND.
+    assert (OL2 : ops_live s (collect_blocks_from f s (r_first xr))).
+    { intros i Ii. apply OL. right. exact Ii. }
+    pose proof (WB _ _ _ _ _ _ ND I1 OL2 H) as I2.
+    pose proof (EQ (collect_blocks_from f s (r_first xr)) []) as EQ2. rewrite !app_nil_r in EQ2.
+    rewrite EQ2. exact I2.
+  Qed.
+
+  Lemma walk_block_step : forall f, W_ops f -> W_block (S f).
+  Proof.
+    intros f WO b X post st st' r ND [T U] OL H.
+    rewrite block_drop_S in H.
+    apply bind_ok in H as (s1 & [] & H1 & H).
+    apply bind_ok in H as (s2 & [] & H2 & H).
+    apply bind_ok in H as (s3 & [] & H3 & H).
+    assert (exists xb, PM.find b (s_blocks s) = Some xb) as (xb & Fx).
+    { pose proof H1 as H1'. apply updB_ok in H1' as (y & Fy & _). eapply find_blk_back; eauto. }
+    rewrite collect_block_S, Fx in *.
+    pose proof (nodup_head_notin _ _ _ _ ND) as NX.
+    destruct (blk_own s X st s1 s2 s3 b _ _ _ (minus_ops (real_slot s) X) T NX H1 H2 H3)
+      as (T1 & U1 & xb' & x3 & Fx' & F3 & E3).
+    rewrite Fx in Fx'. injection Fx' as <-.
+    apply bind_ok in H as (s3' & br & Hg & H). apply getB_ok in Hg as [-> Fb]. rewrite F3 in Fb. injection Fb as <-.
+    rewrite E3 in H.
+    assert (I1 : Inv s (X ++ [GBlock b]) s3).
+    { split; [exact T1|]. eapply Uabs_slots; [|exact (U1 U)]. intros h o i u. unfold minus_ops.
+      rewrite gmem_app. simpl. rewrite orb_false_r. tauto. }
+    apply (Inv_values _ _ (b_args xb)) in I1.
+    assert (EQ : forall (F post' : list gnode),
+              X ++ (GBlock b :: map GValue (b_args xb) ++ F) ++ post' =
+              ((X ++ [GBlock b]) ++ map GValue (b_args xb)) ++ F ++ post').
+    { intros F post'. rewrite <- !app_assoc. simpl. rewrite <- !app_assoc. reflexivity. }
+    rewrite EQ in ND.
+    assert (OL2 : ops_live s (collect_ops_from f s (b_first_op xb))).
+    { intros i Ii. apply OL. right. apply in_or_app. right. exact Ii. }
+    pose proof (WO _ _ _ _ _ _ ND I1 OL2 H) as I2.
+    pose proof (EQ (collect_ops_from f s (b_first_op xb)) []) as EQ2. rewrite !app_nil_r in EQ2.
+    rewrite EQ2. exact I2.
+  Qed.
+
+  Lemma walk_blocks_step : forall f, W_block f -> W_blocks f -> W_blocks (S f).
+  Proof.
+    intros f WB WBS cur X post st st' r ND [T U] OL H.
+    rewrite blocks_drop_S in H. destruct cur as [b|].
+    - apply bind_ok in H as (s0 & br & Hg & H). apply getB_ok in Hg as [-> Fb].
+      destruct (find_blk_back _ _ _ _ T Fb) as (xb & Fx).
+      rewrite collect_blocks_S, Fx in *. cbv zeta in H.
+      apply bind_ok in H as (s1 & [] & H1 & H2).
+      assert (NX : gmem (GBlock b) X = false).
+      { destruct f as [|f']; [simpl in H1; exfalso; eapply raise_ok; eauto|].
+        rewrite collect_block_S, Fx in ND. rewrite <- !app_assoc in ND. simpl in ND.
+        exact (nodup_head_notin X (GBlock b) _ [] ltac:(rewrite app_nil_r; exact ND)). }
+      assert (EN : b_next br = b_next xb).
+      { pose proof (tb_blks _ _ _ T b) as Q. rewrite NX, Fb, Fx in Q. apply (Some_inj (nofu br) (nofu xb)) in Q.
+        apply nofu_inj_fields in Q. tauto. }
+      rewrite EN in H2.
+      apply ops_live_app in OL. destruct OL as [OL1 OL2].
+      rewrite <- app_assoc in ND.
+      pose proof (WB b X _ st s1 _ ND (conj T U) OL1 H1) as I1.
+      rewrite app_assoc in ND.
+      pose proof (WBS _ _ post s1 st' r ND I1 OL2 H2) as I2. rewrite <- app_assoc in I2. exact I2.
+    - apply ret_ok in H as [-> _]. rewrite collect_blocks_S. rewrite app_nil_r. split; assumption.
+  Qed.
+
+  Lemma walk_ops_step : forall f, W_op f -> W_ops f -> W_ops (S f).
+  Proof.
+    intros f WO WOS cur X post st st' r ND [T U] OL H.
+    rewrite ops_drop_S in H. destruct cur as [o|].
+    - apply bind_ok in H as (s0 & orec & Hg & H). apply getO_ok in Hg as [-> Fo].
+      destruct (find_op_back _ _ _ _ T Fo) as (xo & Fx).
+      rewrite collect_ops_S, Fx in *. cbv zeta in H.
+      apply bind_ok in H as (s1 & [] & H1 & H2).
+      assert (NX : gmem (GOp o) X = false).
+      { destruct f as [|f']; [simpl in H1; exfalso; eapply raise_ok; eauto|].
+        rewrite collect_op_S, Fx in ND. rewrite <- !app_assoc in ND. simpl in ND.
+        exact (nodup_head_notin X (GOp o) _ [] ltac:(rewrite app_nil_r; exact ND)). }
+      assert (EN : orec = xo).
+      { rewrite (tb_ops _ _ _ T), NX, Fx in Fo. congruence. }
+      subst orec.
+      apply ops_live_app in OL. destruct OL as [OL1 OL2].
+      rewrite <- app_assoc in ND.
+      pose proof (WO o X _ st s1 _ ND (conj T U) OL1 H1) as I1.
+      rewrite app_assoc in ND.
+      pose proof (WOS _ _ post s1 st' r ND I1 OL2 H2) as I2. rewrite <- app_assoc in I2. exact I2.
+    - apply ret_ok in H as [-> _]. rewrite collect_ops_S. rewrite app_nil_r. split; assumption.
+  Qed.
+
+  Lemma walk : forall f, W_op f /\ W_region f /\ W_blocks f /\ W_block f /\ W_ops f.
+  Proof.
+    induction f as [|f (I1 & I2 & I3 & I4 & I5)].
+    - unfold W_op, W_region, W_blocks, W_block, W_ops.
+      split; [|split; [|split; [|split]]]; intros ? ? ? ? ? ? ? ? ? HH; simpl in HH; exfalso; eapply raise_ok; eauto.
+    - split; [apply walk_op_step; assumption|]. split; [apply walk_region_step; assumption|].
+      split; [apply walk_blocks_step; assumption|]. split; [apply walk_block_step; assumption|].
+      apply walk_ops_step; assumption.
+  Qed.
+End Walk.
+
+(* ------------------------------------------------------------------ the collected sub-tree is closed under `parent` *)
+
+Definition glive (s : state) (g : gnode) : Prop :=
+  match g with
+  | GOp i => op_live s i
+  | GBlock b => blk_live s b
+  | GRegion r => reg_live s r
+  | GValue _ => True
+  end.
+Definition all_live (s : state) (L : list gnode) : Prop := forall g, In g L -> glive s g.
+
+Lemma all_live_app : forall s A B, all_live s (A ++ B) -> all_live s A /\ all_live s B.
+Proof. intros s A B H. split; intros g I; apply H; apply in_or_app; auto. Qed.
+
+Definition par_in (s : state) (L : list gnode) (g : gnode) : Prop :=
+  match g with
+  | GOp i => exists x b, PM.find i (s_ops s) = Some x /\ o_parent x = Some b /\ In (GBlock b) L
+  | GBlock b => exists x r, PM.find b (s_blocks s) = Some x /\ b_parent x = Some r /\ In (GRegion r) L
+  | GRegion r => exists x o, PM.find r (s_regions s) = Some x /\ r_parent x = Some o /\ In (GOp o) L
+  | GValue v => (exists o x, In (GOp o) L /\ PM.find o (s_ops s) = Some x /\ In v (o_results x)) \/
+                (exists b x, In (GBlock b) L /\ PM.find b (s_blocks s) = Some x /\ In v (b_args x))
+  end.
+
+Lemma par_in_mono : forall s L L' g, (forall y, In y L -> In y L') -> par_in s L g -> par_in s L' g.
+Proof.
+  intros s L L' g HI P. destruct g as [i|b|r|v]; simpl in *.
+  4:{ destruct P as [(o & x & M & F & Iv)|(b & x & M & F & Iv)]; [left; exists o, x|right; exists b, x]; auto. }
+  - destruct P as (x & b & F & E & M). exists x, b. auto.
+  - destruct P as (x & r & F & E & M). exists x, r. auto.
+  - destruct P as (x & o & F & E & M). exists x, o. auto.
+Qed.
+
+Section Closure.
+  Variable s : state.
+  Hypothesis W : WF s.
+
+  Definition C_op (f : nat) : Prop := forall o, all_live s (collect_op f s o) ->
+    forall g, In g (collect_op f s o) -> g = GOp o \/ par_in s (collect_op f s o) g.
+  Definition C_region (f : nat) : Prop := forall r, all_live s (collect_region f s r) ->
+    forall g, In g (collect_region f s r) -> g = GRegion r \/ par_in s (collect_region f s r) g.
+  Definition C_block (f : nat) : Prop := forall b, all_live s (collect_block f s b) ->
+    forall g, In g (collect_block f s b) -> g = GBlock b \/ par_in s (collect_block f s b) g.
+  Definition C_blocks (f : nat) : Prop := forall cur r l, chain (blk_next s) cur l ->
+    (forall b, In b l -> exists x, PM.find b (s_blocks s) = Some x /\ b_parent x = Some r) ->
+    all_live s (collect_blocks_from f s cur) ->
+    forall g, In g (collect_blocks_from f s cur) ->
+      (exists b x, g = GBlock b /\ PM.find b (s_blocks s) = Some x /\ b_parent x = Some r) \/
+      par_in s (collect_blocks_from f s cur) g.
+  Definition C_ops (f : nat) : Prop := forall cur b l, chain (op_next s) cur l ->
+    (forall o, In o l -> exists x, PM.find o (s_ops s) = Some x /\ o_parent x = Some b) ->
+    all_live s (collect_ops_from f s cur) ->
+    forall g, In g (collect_ops_from f s cur) ->
+      (exists o x, g = GOp o /\ PM.find o (s_ops s) = Some x /\ o_parent x = Some b) \/
+      par_in s (collect_ops_from f s cur) g.
+
+  Lemma closure_op_step : forall f, C_region f -> C_op (S f).
+  Proof.
+    intros f CR o AL g Ig. rewrite collect_op_S in *.
+    destruct (PM.find o (s_ops s)) as [x|] eqn:Fx; [|destruct Ig].
+    destruct (AL (GOp o) (or_introl eq_refl)) as (x' & Fx' & Ex). rewrite Fx in Fx'. injection Fx' as <-.
+    destruct Ig as [<-|Ig]; [left; reflexivity|]. right.
+    apply in_app_or in Ig. destruct Ig as [Ig|Ig].
+    { apply in_map_iff in Ig. destruct Ig as (v & <- & Iv). simpl. left. exists o, x.
+      split; [left; reflexivity|]. split; [exact Fx|exact Iv]. }
+    apply in_flat_map in Ig. destruct Ig as (r & Ir & Ig).
+    assert (SUB : forall y, In y (collect_region f s r) ->
+              In y (GOp o :: map GValue (o_results x) ++ flat_map (collect_region f s) (o_regions x))).
+    { intros y Iy. right. apply in_or_app. right. apply in_flat_map. eauto. }
+    assert (AL2 : all_live s (collect_region f s r)) by (intros y Iy; apply AL; apply SUB; exact Iy).
+    destruct (CR r AL2 g Ig) as [->|P]; [|eapply par_in_mono; eauto].
+    destruct (wf_opregs s W o x Fx Ex) as (_ & M1 & _). destruct (M1 r Ir) as (rr & Fr & Pr).
+    simpl. exists rr, o. split; [exact Fr|]. split; [exact Pr|]. left. reflexivity.
+  Qed.
+
+  Lemma closure_region_step : forall f, C_blocks f -> C_region (S f).
+  Proof.
+    intros f CB r AL g Ig. rewrite collect_region_S in *.
+    destruct (PM.find r (s_regions s)) as [x|] eqn:Fx; [|destruct Ig].
+    destruct (AL (GRegion r) (or_introl eq_refl)) as (x' & Fx' & Ex). rewrite Fx in Fx'. injection Fx' as <-.
+    destruct Ig as [<-|Ig]; [left; reflexivity|]. right.
+    destruct (wf_region s W r x Fx Ex) as (l & C1 & _ & _ & M1 & _).
+    assert (AL2 : all_live s (collect_blocks_from f s (r_first x))) by (intros y Iy; apply AL; right; exact Iy).
+    destruct (CB _ r l C1 M1 AL2 g Ig) as [(b & xb & -> & Fb & Pb)|P].
+    - simpl. exists xb, r. split; [exact Fb|]. split; [exact Pb|]. left. reflexivity.
+    - eapply par_in_mono; [|exact P]. intros y Iy. right. exact Iy.
+  Qed.
+
+  Lemma closure_block_step : forall f, C_ops f -> C_block (S f).
+  Proof.
+    intros f CO b AL g Ig. rewrite collect_block_S in *.
+    destruct (PM.find b (s_blocks s)) as [x|] eqn:Fx; [|destruct Ig].
+    destruct (AL (GBlock b) (or_introl eq_refl)) as (x' & Fx' & Ex). rewrite Fx in Fx'. injection Fx' as <-.
+    destruct Ig as [<-|Ig]; [left; reflexivity|]. right.
+    apply in_app_or in Ig. destruct Ig as [Ig|Ig].
+    { apply in_map_iff in Ig. destruct Ig as (v & <- & Iv). simpl. right. exists b, x.
+      split; [left; reflexivity|]. split; [exact Fx|exact Iv]. }
+    destruct (wf_block s W b x Fx Ex) as (l & C1 & _ & _ & M1 & _).
+    assert (SUB : forall y, In y (collect_ops_from f s (b_first_op x)) ->
+              In y (GBlock b :: map GValue (b_args x) ++ collect_ops_from f s (b_first_op x))).
+    { intros y Iy. right. apply in_or_app. right. exact Iy. }
+    assert (AL2 : all_live s (collect_ops_from f s (b_first_op x))) by (intros y Iy; apply AL; apply SUB; exact Iy).
+    destruct (CO _ b l C1 M1 AL2 g Ig) as [(o & xo & -> & Fo & Po)|P].
+    - simpl. exists xo, b. split; [exact Fo|]. split; [exact Po|]. left. reflexivity.
+    - eapply par_in_mono; [|exact P]. exact SUB.
+  Qed.
+
+  Lemma closure_blocks_step : forall f, C_block f -> C_blocks f -> C_blocks (S f).
+  Proof.
+    intros f CB CBS cur r l C M AL g Ig. rewrite collect_blocks_S in *.
+    destruct cur as [b|]; [|destruct Ig].
+    destruct (PM.find b (s_blocks s)) as [x|] eqn:Fx; [|destruct Ig].
+    inversion C as [|? n l' Nb C']; subst.
+    unfold blk_next, link in Nb. rewrite Fx in Nb. simpl in Nb. injection Nb as <-.
+    apply all_live_app in AL. destruct AL as [AL1 AL2].
+    apply in_app_or in Ig. destruct Ig as [Ig|Ig].
+    - destruct (CB b AL1 g Ig) as [->|P].
+      + left. destruct (M b (or_introl eq_refl)) as (x' & Fx' & Px). exists b, x'. auto.
+      + right. eapply par_in_mono; [|exact P]. intros y Iy. apply in_or_app. left. exact Iy.
+    - destruct (CBS _ r l' C' (fun b' I' => M b' (or_intror I')) AL2 g Ig) as [Q|P]; [left; exact Q|].
+      right. eapply par_in_mono; [|exact P]. intros y Iy. apply in_or_app. right. exact Iy.
+  Qed.
+
+  Lemma closure_ops_step : forall f, C_op f -> C_ops f -> C_ops (S f).
+  Proof.
+    intros f CO COS cur b l C M AL g Ig. rewrite collect_ops_S in *.
+    destruct cur as [o|]; [|destruct Ig].
+    destruct (PM.find o (s_ops s)) as [x|] eqn:Fx; [|destruct Ig].
+    inversion C as [|? n l' No C']; subst.
+    unfold op_next, link in No. rewrite Fx in No. simpl in No. injection No as <-.
+    apply all_live_app in AL. destruct AL as [AL1 AL2].
+    apply in_app_or in Ig. destruct Ig as [Ig|Ig].
+    - destruct (CO o AL1 g Ig) as [->|P].
+      + left. destruct (M o (or_introl eq_refl)) as (x' & Fx' & Px). exists o, x'. auto.
+      + right. eapply par_in_mono; [|exact P]. intros y Iy. apply in_or_app. left. exact Iy.
+    - destruct (COS _ b l' C' (fun o' I' => M o' (or_intror I')) AL2 g Ig) as [Q|P]; [left; exact Q|].
+      right. eapply par_in_mono; [|exact P]. intros y Iy. apply in_or_app. right. exact Iy.
+  Qed.
+
+  Lemma closure : forall f, C_op f /\ C_region f /\ C_blocks f /\ C_block f /\ C_ops f.
+  Proof.
+    induction f as [|f (I1 & I2 & I3 & I4 & I5)].
+    - unfold C_op, C_region, C_blocks, C_block, C_ops.
+      split; [|split; [|split; [|split]]]; simpl; intros; contradiction.
+    - split; [apply closure_op_step; assumption|]. split; [apply closure_region_step; assumption|].
+      split; [apply closure_blocks_step; assumption|]. split; [apply closure_block_step; assumption|].
+      apply closure_ops_step; assumption.
+  Qed.
+End Closure.
+
+(* ------------------------------------------------------------------ the effect of `kill` *)
+
+Definition markT (T : list gnode) (s t : state) : Prop :=
+  (forall i, PM.find i (s_ops t) =
+     if gmem (GOp i) T then option_map (set_o_erased true) (PM.find i (s_ops s)) else PM.find i (s_ops s)) /\
+  (forall i, PM.find i (s_blocks t) =
+     if gmem (GBlock i) T then option_map (set_b_erased true) (PM.find i (s_blocks s)) else PM.find i (s_blocks s)) /\
+  (forall i, PM.find i (s_regions t) =
+     if gmem (GRegion i) T then option_map (set_r_erased true) (PM.find i (s_regions s)) else PM.find i (s_regions s)) /\
+  (forall i, PM.find i (s_values t) =
+     if gmem (GValue i) T then option_map (set_v_dead true) (PM.find i (s_values s)) else PM.find i (s_values s)) /\
+  s_uses t = s_uses s /\
+  n_op t = n_op s /\ n_block t = n_block s /\ n_region t = n_region s /\ n_value t = n_value s /\ n_use t = n_use s.
+
+Lemma markT_nil : forall s, markT [] s s.
+Proof. intro s. unfold markT. simpl. repeat split; reflexivity. Qed.
+
+Lemma kill_spec : forall l s s' r, kill l s = (s', Ok r) -> markT l s s'.
+Proof.
+  unfold kill. induction l as [|g rest IH]; intros s s' r H; simpl in H.
+  - apply ret_ok in H as [-> _]. apply markT_nil.
+  - apply bind_ok in H as (s1 & [] & H1 & H2).
+    destruct (IH _ _ _ H2) as (M1 & M2 & M3 & M4 & M5 & N1 & N2 & N3 & N4 & N5).
+    destruct g as [o|b|x|v]; simpl in H1.
+    + apply updO_ok in H1 as (y & F & ->). simpl in *. unfold markT.
+      split; [|split; [exact M2|split; [exact M3|split; [exact M4|repeat split; assumption]]]].
+      intro i. rewrite M1, find_add. simpl. destruct (Pos.eqb_spec i o) as [->|N]; simpl; [|reflexivity].
+      rewrite F. destruct (gmem (GOp o) rest); reflexivity.
+    + apply updB_ok in H1 as (y & F & ->). simpl in *. unfold markT.
+      split; [exact M1|split; [|split; [exact M3|split; [exact M4|repeat split; assumption]]]].
+      intro i. rewrite M2, find_add. simpl. destruct (Pos.eqb_spec i b) as [->|N]; simpl; [|reflexivity].
+      rewrite F. destruct (gmem (GBlock b) rest); reflexivity.
+    + apply updR_ok in H1 as (y & F & ->). simpl in *. unfold markT.
+      split; [exact M1|split; [exact M2|split; [|split; [exact M4|repeat split; assumption]]]].
+      intro i. rewrite M3, find_add. simpl. destruct (Pos.eqb_spec i x) as [->|N]; simpl; [|reflexivity].
+      rewrite F. destruct (gmem (GRegion x) rest); reflexivity.
+    + apply updV_ok in H1 as (y & F & ->). simpl in *. unfold markT.
+      split; [exact M1|split; [exact M2|split; [exact M3|split; [|repeat split; assumption]]]].
+      intro i. rewrite M4, find_add. simpl. destruct (Pos.eqb_spec i v) as [->|N]; simpl; [|reflexivity].
+      rewrite F. destruct (gmem (GValue v) rest); reflexivity.
+Qed.
+
+(* ------------------------------------------------------------------ WF reads the tables through find only *)
+
+Lemma WF_ext : forall s t,
+  (forall i, PM.find i (s_ops t) = PM.find i (s_ops s)) ->
+  (forall i, PM.find i (s_blocks t) = PM.find i (s_blocks s)) ->
+  (forall i, PM.find i (s_regions t) = PM.find i (s_regions s)) ->
+  (forall i, PM.find i (s_values t) = PM.find i (s_values s)) ->
+  (forall i, PM.find i (s_uses t) = PM.find i (s_uses s)) ->
+  n_op t = n_op s -> n_block t = n_block s -> n_region t = n_region s -> n_value t = n_value s -> n_use t = n_use s ->
+  WF s -> WF t.
+Proof.
+  intros s t Ao Ab Ar Av Au N1 N2 N3 N4 N5 W.
+  apply (WF_groups s t W).
+  - split; apply agree_ext; assumption.
+  - split; apply agree_ext; assumption.
+  - split; apply agree_ext; assumption.
+  - split; [|split]; apply agree_ext; assumption.
+  - unfold same_A. split; [apply dom_eq_ext; assumption|]. split; [apply dom_eq_ext; assumption|].
+    split; [apply dom_eq_ext; assumption|]. split; [apply dom_eq_ext; assumption|].
+    split; [apply dom_eq_ext; assumption|]. repeat split; assumption.
+  - apply (UWF_same s t (WF_UWF s W)). split; [|split; [|split]]; apply agree_ext; assumption.
+Qed.
+
+Lemma markT_fun : forall T s t t', markT T s t -> markT T s t' -> WF t -> WF t'.
+Proof.
+  intros T s t t' (M1 & M2 & M3 & M4 & M5 & N1 & N2 & N3 & N4 & N5) (M1' & M2' & M3' & M4' & M5' & N1' & N2' & N3' & N4' & N5').
+  intro W. apply (WF_ext t t'); try exact W.
+  - intro i. rewrite M1, M1'. reflexivity.
+  - intro i. rewrite M2, M2'. reflexivity.
+  - intro i. rewrite M3, M3'. reflexivity.
+  - intro i. rewrite M4, M4'. reflexivity.
+  - intro i. rewrite M5, M5'. reflexivity.
+  - rewrite N1, N1'. reflexivity.
+  - rewrite N2, N2'. reflexivity.
+  - rewrite N3, N3'. reflexivity.
+  - rewrite N4, N4'. reflexivity.
+  - rewrite N5, N5'. reflexivity.
+Qed.
+
+(* ------------------------------------------------------------------ value_erase commutes with the marks *)
+
+Definition MT (T : list gnode) (s t : state) : Prop :=
+  markT T s t /\ forall v, gmem (GValue v) T = true -> (v < n_value s)%positive.
+
+Definition simT (T : list gnode) {A} (m : M A) : Prop :=
+  forall s t s' a, MT T s t -> m s = (s', Ok a) -> exists t', m t = (t', Ok a) /\ MT T s' t'.
+
+Lemma simT_ret : forall T {A} (a : A), simT T (ret a).
+Proof. intros T A a s t s' b HR H. apply ret_ok in H as [-> ->]. exists t. split; [reflexivity|exact HR]. Qed.
+Lemma simT_raise : forall T {A} e, simT T (@raise A e).
+Proof. intros T A e s t s' b HR H. exfalso. eapply raise_ok; eauto. Qed.
+Lemma simT_bind : forall T {A B} (m : M A) (f : A -> M B), simT T m -> (forall a, simT T (f a)) -> simT T (bind m f).
+Proof.
+  intros T A B m f Hm Hf s t s' b HR H. apply bind_ok in H as (s1 & a & H1 & H2).
+  destruct (Hm _ _ _ _ HR H1) as (t1 & G1 & HR1). destruct (Hf a _ _ _ _ HR1 H2) as (t' & G2 & HR2).
+  exists t'. split; [|exact HR2]. unfold bind. rewrite G1. exact G2.
+Qed.
+Lemma simT_get_fuel : forall T, simT T get_fuel.
+Proof.
+  intros T s t s' b HR H. unfold get_fuel in *. apply gets_ok in H as [-> ->]. exists t. split; [|exact HR].
+  destruct HR as [(_ & _ & _ & _ & _ & E1 & E2 & E3 & E4 & E5) _].
+  unfold gets, fuel_of. rewrite E1, E2, E3, E4, E5. reflexivity.
+Qed.
+Lemma simT_assert : forall T c, simT T (assert_ c).
+Proof. intros T c. unfold assert_. destruct c; [apply simT_ret|apply simT_raise]. Qed.
+Lemma simT_if : forall T {A} (c : bool) (m1 m2 : M A), simT T m1 -> simT T m2 -> simT T (if c then m1 else m2).
+Proof. intros T A c m1 m2 H1 H2. destruct c; assumption. Qed.
+Lemma simT_forM : forall T {A} (l : list A) (f : A -> M unit), (forall a, simT T (f a)) -> simT T (forM l f).
+Proof.
+  intros T A l f Hf. induction l as [|x r IH]; simpl; [apply simT_ret|].
+  apply simT_bind; [apply Hf|intros _; exact IH].
+Qed.
+Lemma simT_index_or_raise : forall T {A} (l : list A) i, simT T (index_or_raise l i).
+Proof. intros T A l i. unfold index_or_raise. destruct (py_index l i); [apply simT_ret|apply simT_raise]. Qed.
+
+Lemma simT_getU : forall T v, simT T (getU v).
+Proof.
+  intros T v s t s' a HR H. apply getU_ok in H as [-> F]. exists t. split; [|exact HR].
+  destruct HR as [(_ & _ & _ & _ & E & _) _]. unfold getU. rewrite E, F. reflexivity.
+Qed.
+Lemma simT_updU : forall T v f, simT T (updU v f).
+Proof.
+  intros T v f s t s' a HR H. apply updU_ok in H as (x & F & ->). destruct a.
+  destruct HR as [(M1 & M2 & M3 & M4 & M5 & N1 & N2 & N3 & N4 & N5) RV].
+  unfold updU. rewrite M5, F. eexists. split; [reflexivity|].
+  split; [|exact RV]. unfold markT. simpl.
+  split; [exact M1|split; [exact M2|split; [exact M3|split; [exact M4|repeat split; assumption]]]].
+Qed.
+
+(* first_use of a value *)
+Lemma simT_gfu : forall T v, simT T (get_first_use (HV v)).
+Proof.
+  intros T v s t s' a HR H. simpl in H. apply bind_ok in H as (s0 & x & Hg & H).
+  apply getV_ok in Hg as [-> F]. apply ret_ok in H as [-> ->]. exists t. split; [|exact HR].
+  destruct HR as [(_ & _ & _ & M4 & _) _]. simpl. unfold bind, getV. rewrite M4, F.
+  destruct (gmem (GValue v) T); reflexivity.
+Qed.
+Lemma simT_sfu : forall T v u, simT T (set_first_use (HV v) u).
+Proof.
+  intros T v u s t s' a HR H. simpl in H. apply updV_ok in H as (x & F & ->). destruct a.
+  destruct HR as [(M1 & M2 & M3 & M4 & M5 & N1 & N2 & N3 & N4 & N5) RV].
+  simpl. unfold updV. rewrite M4, F.
+  destruct (gmem (GValue v) T) eqn:G; simpl; (eexists; split; [reflexivity|]); (split; [|exact RV]);
+    unfold markT; simpl; (split; [exact M1|split; [exact M2|split; [exact M3|split; [|repeat split; assumption]]]]);
+    intro i; rewrite !find_add; (destruct (Pos.eqb_spec i v) as [->|Ni]; [rewrite G; reflexivity|apply M4]).
+Qed.
+Lemma simT_allocV : forall T rec, simT T (allocV rec).
+Proof.
+  intros T rec s t s' a HR H. unfold allocV in H. injection H as <- <-.
+  destruct HR as [(M1 & M2 & M3 & M4 & M5 & N1 & N2 & N3 & N4 & N5) RV].
+  unfold allocV. rewrite N4. eexists. split; [reflexivity|]. split.
+  - unfold markT. simpl. split; [exact M1|split; [exact M2|split; [exact M3|split; [|repeat split; assumption]]]].
+    intro i. rewrite !find_add. destruct (Pos.eqb_spec i (n_value s)) as [->|Ni]; [|apply M4].
+    destruct (gmem (GValue (n_value s)) T) eqn:G; [|reflexivity]. apply RV in G. lia.
+  - simpl. intros v G. apply RV in G. lia.
+Qed.
+
+Lemma simT_getO_K : forall T o' {A} (K : list vid -> list uid -> M A),
+  (forall a b, simT T (K a b)) -> simT T (orec <- getO o' ;; K (o_operands orec) (o_operand_uses orec)).
+Proof.
+  intros T o' A K HK s t s' a HR H. apply bind_ok in H as (s0 & orec & Hg & H). apply getO_ok in Hg as [-> F].
+  destruct (HK _ _ _ _ _ _ HR H) as (t' & Ht & HR'). exists t'. split; [|exact HR'].
+  destruct HR as [(M1 & _) _]. unfold bind, getO. rewrite (M1 o'), F. destruct (gmem (GOp o') T); simpl; exact Ht.
+Qed.
+Lemma simT_updO_operands : forall T o' l, simT T (updO o' (set_o_operands l)).
+Proof.
+  intros T o' l s t s' a HR H. apply updO_ok in H as (x & F & ->). destruct a.
+  destruct HR as [(M1 & M2 & M3 & M4 & M5 & N1 & N2 & N3 & N4 & N5) RV].
+  unfold updO. rewrite (M1 o'), F.
+  destruct (gmem (GOp o') T) eqn:G; simpl; (eexists; split; [reflexivity|]); (split; [|exact RV]);
+    unfold markT; simpl; (split; [|split; [exact M2|split; [exact M3|split; [exact M4|repeat split; assumption]]]]);
+    intro i; rewrite !find_add; (destruct (Pos.eqb_spec i o') as [->|Ni]; [rewrite G; reflexivity|apply M1]).
+Qed.
+
+Ltac simT_step :=
+  match goal with
+  | |- simT _ (bind _ _) => apply simT_bind; [|intros ?]
+  | |- simT _ (ret _) => apply simT_ret
+  | |- simT _ (raise _) => apply simT_raise
+  | |- simT _ get_fuel => apply simT_get_fuel
+  | |- simT _ (getU _) => apply simT_getU
+  | |- simT _ (updU _ _) => apply simT_updU
+  | |- simT _ (allocV _) => apply simT_allocV
+  | |- simT _ (assert_ _) => apply simT_assert
+  | |- simT _ (get_first_use (HV _)) => apply simT_gfu
+  | |- simT _ (set_first_use (HV _) _) => apply simT_sfu
+  | |- simT _ (forM _ _) => apply simT_forM; intros ?
+  | |- simT _ (index_or_raise _ _) => apply simT_index_or_raise
+  | |- simT _ (if _ then _ else _) => apply simT_if
+  | |- simT _ (match ?x with Some _ => _ | None => _ end) => destruct x
+  end.
+Ltac simT_auto := repeat simT_step.
+
+Lemma simT_remove_use : forall T v u, simT T (remove_use (HV v) u).
+Proof. intros T v u. unfold remove_use. simT_auto. Qed.
+Lemma simT_add_use : forall T v u, simT T (add_use (HV v) u).
+Proof. intros T v u. unfold add_use. simT_auto. Qed.
+
+Lemma simT_operands_setitem : forall T o' idx v, simT T (operands_setitem o' idx v).
+Proof.
+  intros T o' idx v. rewrite operands_setitem_K. apply simT_getO_K. intros a b. unfold setitem_K.
+  cbv zeta. simT_auto; first [apply simT_remove_use|apply simT_add_use|apply simT_updO_operands].
+Qed.
+
+Lemma simT_uses_from : forall T fl cur, simT T (uses_from fl cur).
+Proof.
+  intros T fl. induction fl as [|f IH]; intro cur; simpl; [apply simT_raise|].
+  destruct cur as [u|]; [|apply simT_ret]. simT_auto. apply IH.
+Qed.
+
+Lemma simT_rauw : forall T self value, simT T (replace_all_uses_with self value).
+Proof.
+  intros T self value. unfold replace_all_uses_with, uses_of. simT_auto;
+    first [apply simT_uses_from|apply simT_operands_setitem].
+Qed.
+
+Lemma simT_value_erase : forall T self safe, simT T (value_erase self safe).
+Proof. intros T self safe. unfold value_erase. simT_auto. apply simT_rauw. Qed.
+
+(* ------------------------------------------------------------------ a state carrying the marks *)
+
+Definition markS (T : list gnode) (s : state) : state :=
+  mkState (PM.mapi (fun i x => if gmem (GOp i) T then set_o_erased true x else x) (s_ops s))
+          (PM.mapi (fun i x => if gmem (GBlock i) T then set_b_erased true x else x) (s_blocks s))
+          (PM.mapi (fun i x => if gmem (GRegion i) T then set_r_erased true x else x) (s_regions s))
+          (PM.mapi (fun i x => if gmem (GValue i) T then set_v_dead true x else x) (s_values s))
+          (s_uses s) (n_op s) (n_block s) (n_region s) (n_value s) (n_use s).
+
+Lemma markS_markT : forall T s, markT T s (markS T s).
+Proof.
+  intros T s. unfold markT, markS. simpl.
+  split; [|split; [|split; [|split; [|repeat split]]]]; intro i; rewrite PM.gmapi;
+    match goal with |- context [gmem ?g T] => destruct (gmem g T) end;
+    match goal with |- context [PM.find ?j ?m] => destruct (PM.find j m) end; reflexivity.
+Qed.
+
+(* ------------------------------------------------------------------ the marked state after the walk is WF *)
+
+Lemma fin_WF : forall s s2 t o xo D,
+  WF s -> PM.find o (s_ops s) = Some xo -> o_parent xo = None ->
+  (forall g, In g D -> g = GOp o \/ par_in s D g) ->
+  Inv s D s2 -> markT D s2 t -> WF t.
+Proof.
+  intros s s2 t o xo D W Fo Po CL [[T1 T2 T3 T4 T5] U] (M1 & M2 & M3 & M4 & M5 & N1 & N2 & N3 & N4 & N5).
+  destruct (UWF_Uabs s (WF_UWF s W)) as [UA LN].
+  (* tables of t *)
+  assert (F_ops : forall i, PM.find i (s_ops t) =
+            if gmem (GOp i) D then option_map (fun x => set_o_erased true (drop_op x)) (PM.find i (s_ops s))
+            else PM.find i (s_ops s)).
+  { intro i. rewrite M1, T1. destruct (gmem (GOp i) D); [|reflexivity]. destruct (PM.find i (s_ops s)); reflexivity. }
+  assert (F_regs : forall i, PM.find i (s_regions t) =
+            if gmem (GRegion i) D then option_map (fun x => set_r_erased true (drop_reg x)) (PM.find i (s_regions s))
+            else PM.find i (s_regions s)).
+  { intro i. rewrite M3, T2. destruct (gmem (GRegion i) D); [|reflexivity]. destruct (PM.find i (s_regions s)); reflexivity. }
+  assert (F_blk_out : forall i y, gmem (GBlock i) D = false -> PM.find i (s_blocks t) = Some y ->
+            exists xb, PM.find i (s_blocks s) = Some xb /\ nofu y = nofu xb).
+  { intros i y G F. rewrite M2, G in F. pose proof (T3 i) as Q. rewrite G, F in Q.
+    destruct (PM.find i (s_blocks s)) as [xb|]; [|discriminate]. exists xb. split; [reflexivity|].
+    apply (Some_inj (nofu y) (nofu xb)). exact Q. }
+  assert (F_blk_rev : forall i xb, gmem (GBlock i) D = false -> PM.find i (s_blocks s) = Some xb ->
+            exists y, PM.find i (s_blocks t) = Some y /\ nofu y = nofu xb).
+  { intros i xb G F. pose proof (T3 i) as Q. rewrite G, F in Q. rewrite M2, G.
+    destruct (PM.find i (s_blocks s2)) as [y|]; [|discriminate]. exists y. split; [reflexivity|].
+    apply (Some_inj (nofu y) (nofu xb)). exact Q. }
+  assert (F_blk_in : forall i y, gmem (GBlock i) D = true -> PM.find i (s_blocks t) = Some y -> b_erased y = true).
+  { intros i y G F. rewrite M2, G in F. destruct (PM.find i (s_blocks s2)); [|discriminate]. injection F as <-. reflexivity. }
+  assert (F_blk_any : forall i xb, PM.find i (s_blocks s) = Some xb ->
+            exists y, PM.find i (s_blocks t) = Some y /\ b_args y = b_args xb).
+  { intros i xb F. pose proof (T3 i) as Q. rewrite F in Q. rewrite M2.
+    destruct (PM.find i (s_blocks s2)) as [y|]; [|destruct (gmem (GBlock i) D); discriminate].
+    assert (b_args y = b_args xb).
+    { destruct (gmem (GBlock i) D); simpl in Q; injection Q; auto. }
+    destruct (gmem (GBlock i) D); eexists; (split; [reflexivity|]); simpl; assumption. }
+  assert (F_val : forall v vr, PM.find v (s_values s) = Some vr ->
+            exists vr', PM.find v (s_values t) = Some vr' /\ v_kind vr' = v_kind vr).
+  { intros v vr F. destruct (agree_find_rev _ _ _ _ _ T4 F) as (vr2 & F2 & P). unfold pI_val in P. injection P as P1 P2.
+    rewrite M4, F2. destruct (gmem (GValue v) D); eexists; (split; [reflexivity|]); simpl; assumption. }
+  assert (F_val_rev : forall v vr', PM.find v (s_values t) = Some vr' -> v_dead vr' = false ->
+            exists vr, PM.find v (s_values s) = Some vr /\ v_kind vr = v_kind vr' /\ v_dead vr = false).
+  { intros v vr' F Dd. rewrite M4 in F.
+    destruct (gmem (GValue v) D).
+    - destruct (PM.find v (s_values s2)); [|discriminate]. injection F as <-. discriminate.
+    - destruct (agree_find _ _ _ _ _ T4 F) as (vr & Fv & P). unfold pI_val in P. injection P as P1 P2.
+      exists vr. split; [exact Fv|]. split; congruence. }
+  (* members of the sub-tree *)
+  assert (IN : forall g, gmem g D = true -> g = GOp o \/ par_in s D g).
+  { intros g G. apply CL. apply gmem_In. exact G. }
+  assert (OUT_op : forall o' x' b, PM.find o' (s_ops s) = Some x' -> o_parent x' = Some b ->
+            gmem (GBlock b) D = false -> gmem (GOp o') D = false).
+  { intros o' x' b F P G. destruct (gmem (GOp o') D) eqn:G'; [|reflexivity]. exfalso.
+    destruct (IN _ G') as [E|(x'' & b' & F' & P' & I')].
+    - injection E as ->. rewrite Fo in F. injection F as <-. congruence.
+    - rewrite F in F'. injection F' as <-. rewrite P in P'. injection P' as <-.
+      apply gmem_In in I'. congruence. }
+  assert (OUT_blk : forall b' x' r, PM.find b' (s_blocks s) = Some x' -> b_parent x' = Some r ->
+            gmem (GRegion r) D = false -> gmem (GBlock b') D = false).
+  { intros b' x' r F P G. destruct (gmem (GBlock b') D) eqn:G'; [|reflexivity]. exfalso.
+    destruct (IN _ G') as [E|(x'' & r' & F' & P' & I')]; [discriminate|].
+    rewrite F in F'. injection F' as <-. rewrite P in P'. injection P' as <-.
+    apply gmem_In in I'. congruence. }
+  assert (OUT_reg : forall r x' o', PM.find r (s_regions s) = Some x' -> r_parent x' = Some o' ->
+            gmem (GOp o') D = false -> gmem (GRegion r) D = false).
+  { intros r x' o' F P G. destruct (gmem (GRegion r) D) eqn:G'; [|reflexivity]. exfalso.
+    destruct (IN _ G') as [E|(x'' & o'' & F' & P' & I')]; [discriminate|].
+    rewrite F in F'. injection F' as <-. rewrite P in P'. injection P' as <-.
+    apply gmem_In in I'. congruence. }
+  assert (LIVE_op : forall o' x', PM.find o' (s_ops t) = Some x' -> o_erased x' = false ->
+            gmem (GOp o') D = false /\ PM.find o' (s_ops s) = Some x').
+  { intros o' x' F E. rewrite F_ops in F. destruct (gmem (GOp o') D); [|auto].
+    destruct (PM.find o' (s_ops s)); [|discriminate]. injection F as <-. discriminate. }
+  assert (LIVE_reg : forall r x', PM.find r (s_regions t) = Some x' -> r_erased x' = false ->
+            gmem (GRegion r) D = false /\ PM.find r (s_regions s) = Some x').
+  { intros r x' F E. rewrite F_regs in F. destruct (gmem (GRegion r) D); [|auto].
+    destruct (PM.find r (s_regions s)); [|discriminate]. injection F as <-. discriminate. }
+  assert (LIVE_blk : forall b y, PM.find b (s_blocks t) = Some y -> b_erased y = false ->
+            gmem (GBlock b) D = false /\ exists xb, PM.find b (s_blocks s) = Some xb /\ nofu y = nofu xb).
+  { intros b y F E. destruct (gmem (GBlock b) D) eqn:G.
+    - rewrite (F_blk_in b y G F) in E. discriminate.
+    - split; [reflexivity|]. eapply F_blk_out; eauto. }
+  assert (NXT : forall i, op_next t i = op_next s i).
+  { intro i. unfold op_next, link. rewrite F_ops. destruct (gmem (GOp i) D); [|reflexivity].
+    destruct (PM.find i (s_ops s)); reflexivity. }
+  assert (PRV : forall i, op_prev t i = op_prev s i).
+  { intro i. unfold op_prev, link. rewrite F_ops. destruct (gmem (GOp i) D); [|reflexivity].
+    destruct (PM.find i (s_ops s)); reflexivity. }
+  (* use lists *)
+  assert (UW : UWF t).
+  { apply Uabs_UWF.
+    - eapply Uabs_ext; [| | |exact U].
+      + intro u. rewrite M5. reflexivity.
+      + intros [v|b]; simpl; unfold link.
+        * rewrite M4. destruct (gmem (GValue v) D); [|reflexivity]. destruct (PM.find v (s_values s2)); reflexivity.
+        * rewrite M2. destruct (gmem (GBlock b) D); [|reflexivity]. destruct (PM.find b (s_blocks s2)); reflexivity.
+      + intros h o' i u. unfold minus_ops. split.
+        * intros (x' & F' & E' & Z1 & Z2). destruct (LIVE_op o' x' F' E') as [G Fs]. split; [|exact G]. exists x'. auto.
+        * intros [(x' & F' & E' & Z1 & Z2) G]. exists x'. rewrite F_ops, G. auto.
+    - intros o' x' F' E'. destruct (LIVE_op o' x' F' E') as [G Fs]. exact (LN o' x' Fs E'). }
+  destruct UW as (U1 & U2 & U3 & U4 & U5).
+  constructor; try assumption.
+  - (* WF_block *)
+    intros b y Fb Eb. destruct (LIVE_blk b y Fb Eb) as (G & xb & Fxb & Q).
+    destruct (nofu_inj_fields _ _ Q) as (E1 & E2 & E3 & E4 & E5 & E6 & E7).
+    destruct (wf_block s W b xb Fxb ltac:(congruence)) as (l & C1 & C2 & ND & Mm1 & Mm2).
+    exists l. rewrite E2, E3.
+    split; [eapply chain_ext; [|exact C1]; intros; apply NXT|].
+    split; [eapply chain_ext; [|exact C2]; intros; apply PRV|]. split; [exact ND|]. split.
+    + intros o' Io. destruct (Mm1 o' Io) as (x' & Fx' & Px'). exists x'. split; [|exact Px'].
+      rewrite F_ops, (OUT_op o' x' b Fx' Px' G). exact Fx'.
+    + intros o' x' Fx' Ex' Px'. destruct (LIVE_op o' x' Fx' Ex') as [_ Fs]. eapply Mm2; eauto.
+  - (* WF_region *)
+    intros r rr Fr Er. destruct (LIVE_reg r rr Fr Er) as [G Fs].
+    destruct (wf_region s W r rr Fs Er) as (l & C1 & C2 & ND & Mm1 & Mm2).
+    assert (MEM : forall b', In b' l -> exists xb y, PM.find b' (s_blocks s) = Some xb /\
+              PM.find b' (s_blocks t) = Some y /\ nofu y = nofu xb /\ b_parent xb = Some r).
+    { intros b' Ib. destruct (Mm1 b' Ib) as (xb & Fxb & Pxb).
+      destruct (F_blk_rev b' xb (OUT_blk b' xb r Fxb Pxb G) Fxb) as (y & Fy & Q). exists xb, y. auto. }
+    exists l.
+    split; [eapply chain_ext; [|exact C1]|].
+    { intros b' Ib. destruct (MEM b' Ib) as (xb & y & Fxb & Fy & Q & _).
+      destruct (nofu_inj_fields _ _ Q) as (_ & _ & _ & E4 & _). unfold blk_next, link. rewrite Fy, Fxb. simpl. congruence. }
+    split; [eapply chain_ext; [|exact C2]|].
+    { intros b' Ib. apply in_rev in Ib. destruct (MEM b' Ib) as (xb & y & Fxb & Fy & Q & _).
+      destruct (nofu_inj_fields _ _ Q) as (_ & _ & _ & _ & E5 & _). unfold blk_prev, link. rewrite Fy, Fxb. simpl. congruence. }
+    split; [exact ND|]. split.
+    + intros b' Ib. destruct (MEM b' Ib) as (xb & y & Fxb & Fy & Q & Pxb).
+      destruct (nofu_inj_fields _ _ Q) as (_ & _ & _ & _ & _ & E6 & _). exists y. split; [exact Fy|congruence].
+    + intros b' y Fy Ey Py. destruct (LIVE_blk b' y Fy Ey) as (_ & xb & Fxb & Q).
+      destruct (nofu_inj_fields _ _ Q) as (_ & _ & _ & _ & _ & E6 & E7). eapply Mm2; eauto; congruence.
+  - (* WF_opregs *)
+    intros o' x' Fx' Ex'. destruct (LIVE_op o' x' Fx' Ex') as [G Fs].
+    destruct (wf_opregs s W o' x' Fs Ex') as (ND & Mm1 & Mm2). split; [exact ND|]. split.
+    + intros r Ir. destruct (Mm1 r Ir) as (rr & Fr & Pr). exists rr. split; [|exact Pr].
+      rewrite F_regs, (OUT_reg r rr o' Fr Pr G). exact Fr.
+    + intros r rr Fr Er Pr. destruct (LIVE_reg r rr Fr Er) as [_ Frs]. eapply Mm2; eauto.
+  - (* WF_results *)
+    intros o' x' Fx' Ex' i v N. destruct (LIVE_op o' x' Fx' Ex') as [G Fs].
+    destruct (wf_results s W o' x' Fs Ex' i v N) as (vr & Fv & K).
+    destruct (F_val v vr Fv) as (vr' & Fv' & K'). exists vr'. split; [exact Fv'|congruence].
+  - (* WF_args *)
+    intros b y Fb Eb i v N. destruct (LIVE_blk b y Fb Eb) as (G & xb & Fxb & Q).
+    destruct (nofu_inj_fields _ _ Q) as (E1 & _ & _ & _ & _ & _ & E7). rewrite E1 in N.
+    destruct (wf_args s W b xb Fxb ltac:(congruence) i v N) as (vr & Fv & K).
+    destruct (F_val v vr Fv) as (vr' & Fv' & K'). exists vr'. split; [exact Fv'|congruence].
+  - (* WF_owner *)
+    intros v vr' Fv' Dd. destruct (F_val_rev v vr' Fv' Dd) as (vr & Fv & K & Dv).
+    pose proof (wf_owner s W v vr Fv Dv) as OW. rewrite <- K. destruct (v_kind vr) as [o' i|b i|old]; [| |exact I].
+    + destruct OW as (x' & Fx' & Z). rewrite F_ops. rewrite Fx'.
+      destruct (gmem (GOp o') D); eexists; (split; [reflexivity|]); simpl; exact Z.
+    + destruct OW as (xb & Fxb & Z). destruct (F_blk_any b xb Fxb) as (y & Fy & Ay). exists y. split; [exact Fy|congruence].
+  - (* WF_detached *)
+    destruct (wf_detached s W) as [D1 D2]. split.
+    + intros o' x' Fx' Ex' Px'. destruct (LIVE_op o' x' Fx' Ex') as [_ Fs]. eapply D1; eauto.
+    + intros b y Fb Eb Pb. destruct (LIVE_blk b y Fb Eb) as (G & xb & Fxb & Q).
+      destruct (nofu_inj_fields _ _ Q) as (_ & _ & _ & E4 & E5 & E6 & E7).
+      destruct (D2 b xb Fxb ltac:(congruence) ltac:(congruence)) as [Q1 Q2]. split; congruence.
+  - (* WF_alloc *)
+    destruct (wf_alloc s W) as (B1 & B2 & B3 & B4 & B5).
+    destruct T5 as (D1 & D2 & D3 & D4 & D5 & K1 & K2 & K3 & K4 & K5).
+    unfold WF_alloc, below. rewrite N1, N2, N3, N4, N5, K1, K2, K3, K4, K5. repeat split; intros i y F.
+    + rewrite M1 in F. destruct (PM.find i (s_ops s2)) eqn:F2; [|destruct (gmem (GOp i) D); discriminate].
+      destruct (PM.find i (s_ops s)) eqn:F3; [eapply B1; eauto|]. apply D1 in F3. congruence.
+    + rewrite M2 in F. destruct (PM.find i (s_blocks s2)) eqn:F2; [|destruct (gmem (GBlock i) D); discriminate].
+      destruct (PM.find i (s_blocks s)) eqn:F3; [eapply B2; eauto|]. apply D2 in F3. congruence.
+    + rewrite M3 in F. destruct (PM.find i (s_regions s2)) eqn:F2; [|destruct (gmem (GRegion i) D); discriminate].
+      destruct (PM.find i (s_regions s)) eqn:F3; [eapply B3; eauto|]. apply D3 in F3. congruence.
+    + rewrite M4 in F. destruct (PM.find i (s_values s2)) eqn:F2; [|destruct (gmem (GValue i) D); discriminate].
+      destruct (PM.find i (s_values s)) eqn:F3; [eapply B4; eauto|]. apply D4 in F3. congruence.
+    + rewrite M5 in F. destruct (PM.find i (s_uses s)) eqn:F3; [eapply B5; eauto|]. apply D5 in F3. congruence.
+Qed.
+
+(* ------------------------------------------------------------------ parent pointers and depth *)
+
+Definition gpar (s : state) (g : gnode) : option gnode :=
+  match g with
+  | GOp i => match PM.find i (s_ops s) with Some x => option_map GBlock (o_parent x) | None => None end
+  | GBlock b => match PM.find b (s_blocks s) with Some x => option_map GRegion (b_parent x) | None => None end
+  | GRegion r => match PM.find r (s_regions s) with Some x => option_map GOp (r_parent x) | None => None end
+  | GValue v => match PM.find v (s_values s) with
+                | Some vr => match v_kind vr with
+                             | KRes o _ => Some (GOp o)
+                             | KArg b _ => Some (GBlock b)
+                             | KErased _ => None
+                             end
+                | None => None
+                end
+  end.
+
+Inductive anc (s : state) : nat -> gnode -> gnode -> Prop :=
+| anc0 : forall g, anc s O g g
+| ancS : forall k g p c, gpar s g = Some p -> anc s k p c -> anc s (S k) g c.
+
+Lemma anc_fun : forall s k g c c', anc s k g c -> anc s k g c' -> c = c'.
+Proof.
+  intros s k g c c' H. revert c'. induction H; intros c' H'; inversion H'; subst; [reflexivity|].
+  apply IHanc. congruence.
+Qed.
+Lemma anc_trans : forall s j g c, anc s j g c -> forall k d, anc s k c d -> anc s (j + k) g d.
+Proof. intros s j g c H. induction H; intros k' d H'; simpl; [exact H'|]. econstructor; eauto. Qed.
+Lemma anc_split : forall s j k g d, anc s (j + k) g d -> exists c, anc s j g c /\ anc s k c d.
+Proof.
+  intros s j. induction j as [|j IH]; intros k g d H; simpl in H.
+  - exists g. split; [constructor|exact H].
+  - inversion H; subst. destruct (IH _ _ _ H2) as (c & A1 & A2). exists c. split; [econstructor; eauto|exact A2].
+Qed.
+Lemma anc_root : forall s k root c, gpar s root = None -> anc s k root c -> k = O /\ c = root.
+Proof. intros s k root c R H. inversion H; subst; [auto|congruence]. Qed.
+Lemma anc_one : forall s g p, gpar s g = Some p -> anc s 1 g p.
+Proof. intros. econstructor; [eassumption|constructor]. Qed.
+
+Lemma depth_le : forall s root k k' g, gpar s root = None ->
+  anc s k g root -> anc s k' g root -> (k <= k')%nat -> k = k'.
+Proof.
+  intros s root k k' g R A1 A2 L. replace k' with (k + (k' - k))%nat in A2 by lia.
+  destruct (anc_split _ _ _ _ _ A2) as (c & B1 & B2).
+  assert (c = root) by (eapply anc_fun; eauto). subst c.
+  destruct (anc_root _ _ _ _ R B2) as [E _]. lia.
+Qed.
+Lemma depth_uniq : forall s root k k' g, gpar s root = None -> anc s k g root -> anc s k' g root -> k = k'.
+Proof.
+  intros s root k k' g R A1 A2. destruct (Nat.le_ge_cases k k') as [L|L].
+  - eapply depth_le; eauto.
+  - symmetry. eapply depth_le; eauto.
+Qed.
+
+(* two containers at the same depth have disjoint sub-trees *)
+Lemma sib_disj : forall s root k c1 c2 j1 j2 g, gpar s root = None ->
+  anc s k c1 root -> anc s k c2 root -> anc s j1 g c1 -> anc s j2 g c2 -> c1 = c2 /\ j1 = j2.
+Proof.
+  intros s root k c1 c2 j1 j2 g R A1 A2 B1 B2.
+  pose proof (anc_trans _ _ _ _ B1 _ _ A1) as D1. pose proof (anc_trans _ _ _ _ B2 _ _ A2) as D2.
+  pose proof (depth_uniq _ _ _ _ _ R D1 D2) as E. assert (j1 = j2) by lia. subst j2.
+  split; [eapply anc_fun; eauto|reflexivity].
+Qed.
+
+(* a proper descendant of c is not c *)
+Lemma desc_neq : forall s root k c j, gpar s root = None -> anc s k c root -> anc s (S j) c c -> False.
+Proof.
+  intros s root k c j R A B. pose proof (anc_trans _ _ _ _ B _ _ A) as D.
+  pose proof (depth_uniq _ _ _ _ _ R A D). lia.
+Qed.
+
+Lemma NoDup_app_intro : forall {A} (l1 l2 : list A),
+  NoDup l1 -> NoDup l2 -> (forall x, In x l1 -> In x l2 -> False) -> NoDup (l1 ++ l2).
+Proof.
+  intros A l1 l2 N1 N2 D. induction N1 as [|a r Na N1 IH]; simpl; [exact N2|].
+  constructor.
+  - intro I. apply in_app_or in I. destruct I as [I|I]; [contradiction|]. eapply D; [left; reflexivity|exact I].
+  - apply IH. intros x I1 I2. eapply D; [right; exact I1|exact I2].
+Qed.
+
+Lemma NoDup_flat_map_disj : forall {A B} (f : A -> list B) (l : list A),
+  NoDup l -> (forall a, In a l -> NoDup (f a)) ->
+  (forall a b g, In a l -> In b l -> In g (f a) -> In g (f b) -> a = b) ->
+  NoDup (flat_map f l).
+Proof.
+  intros A B f l ND. induction ND as [|a r Na ND IH]; intros N1 DJ; simpl; [constructor|].
+  apply NoDup_app_intro.
+  - apply N1. left. reflexivity.
+  - apply IH; [intros; apply N1; right; assumption|]. intros a' b g Ia Ib. apply DJ; right; assumption.
+  - intros g I1 I2. apply in_flat_map in I2. destruct I2 as (b & Ib & Igb).
+    assert (a = b) by (eapply (DJ a b g); [left; reflexivity|right; exact Ib|exact I1|exact Igb]). subst b. contradiction.
+Qed.
+
+Lemma NoDup_values : forall (l : list vid), NoDup l -> NoDup (map GValue l).
+Proof. intros l ND. apply Injective_map_NoDup; [|exact ND]. intros a b E. injection E as E. exact E. Qed.
+
+Lemma all_live_sub : forall s L L', all_live s L -> (forall g, In g L' -> In g L) -> all_live s L'.
+Proof. intros s L L' AL SUB g I. apply AL. apply SUB. exact I. Qed.
+
+Section Distinct.
+  Variable s : state.
+  Hypothesis W : WF s.
+  Variable root : gnode.
+  Hypothesis Rt : gpar s root = None.
+
+  Lemma res_facts : forall o x, PM.find o (s_ops s) = Some x -> o_erased x = false ->
+    NoDup (o_results x) /\ forall v, In v (o_results x) -> gpar s (GValue v) = Some (GOp o).
+  Proof.
+    intros o x F E. split.
+    - apply NoDup_nth_error. intros i j Li Eq.
+      destruct (nth_error (o_results x) i) as [v|] eqn:Ni; [|apply nth_error_None in Ni; lia].
+      symmetry in Eq.
+      destruct (wf_results s W o x F E i v Ni) as (vr & Fv & K).
+      destruct (wf_results s W o x F E j v Eq) as (vr' & Fv' & K'). rewrite Fv in Fv'. injection Fv' as <-.
+      rewrite K in K'. injection K' as K'. lia.
+    - intros v Iv. destruct (In_nth_error _ _ Iv) as (i & Ni).
+      destruct (wf_results s W o x F E i v Ni) as (vr & Fv & K). simpl. rewrite Fv, K. reflexivity.
+  Qed.
+  Lemma args_facts : forall b x, PM.find b (s_blocks s) = Some x -> b_erased x = false ->
+    NoDup (b_args x) /\ forall v, In v (b_args x) -> gpar s (GValue v) = Some (GBlock b).
+  Proof.
+    intros b x F E. split.
+    - apply NoDup_nth_error. intros i j Li Eq.
+      destruct (nth_error (b_args x) i) as [v|] eqn:Ni; [|apply nth_error_None in Ni; lia].
+      symmetry in Eq.
+      destruct (wf_args s W b x F E i v Ni) as (vr & Fv & K).
+      destruct (wf_args s W b x F E j v Eq) as (vr' & Fv' & K'). rewrite Fv in Fv'. injection Fv' as <-.
+      rewrite K in K'. injection K' as K'. lia.
+    - intros v Iv. destruct (In_nth_error _ _ Iv) as (i & Ni).
+      destruct (wf_args s W b x F E i v Ni) as (vr & Fv & K). simpl. rewrite Fv, K. reflexivity.
+  Qed.
+
+  Definition N_op (f : nat) : Prop := forall o k0, anc s k0 (GOp o) root -> all_live s (collect_op f s o) ->
+    NoDup (collect_op f s o) /\ forall g, In g (collect_op f s o) -> exists j, anc s j g (GOp o).
+  Definition N_region (f : nat) : Prop := forall r k0, anc s k0 (GRegion r) root -> all_live s (collect_region f s r) ->
+    NoDup (collect_region f s r) /\ forall g, In g (collect_region f s r) -> exists j, anc s j g (GRegion r).
+  Definition N_block (f : nat) : Prop := forall b k0, anc s k0 (GBlock b) root -> all_live s (collect_block f s b) ->
+    NoDup (collect_block f s b) /\ forall g, In g (collect_block f s b) -> exists j, anc s j g (GBlock b).
+  Definition N_blocks (f : nat) : Prop := forall cur r l k0, anc s k0 (GRegion r) root ->
+    chain (blk_next s) cur l -> NoDup l ->
+    (forall b, In b l -> exists x, PM.find b (s_blocks s) = Some x /\ b_parent x = Some r) ->
+    all_live s (collect_blocks_from f s cur) ->
+    NoDup (collect_blocks_from f s cur) /\
+    forall g, In g (collect_blocks_from f s cur) -> exists b j, In b l /\ anc s j g (GBlock b).
+  Definition N_ops (f : nat) : Prop := forall cur b l k0, anc s k0 (GBlock b) root ->
+    chain (op_next s) cur l -> NoDup l ->
+    (forall o, In o l -> exists x, PM.find o (s_ops s) = Some x /\ o_parent x = Some b) ->
+    all_live s (collect_ops_from f s cur) ->
+    NoDup (collect_ops_from f s cur) /\
+    forall g, In g (collect_ops_from f s cur) -> exists o j, In o l /\ anc s j g (GOp o).
+
+  Lemma nodup_op_step : forall f, N_region f -> N_op (S f).
+  Proof.
+    intros f NR o k0 A0 AL. rewrite collect_op_S in *.
+    destruct (PM.find o (s_ops s)) as [x|] eqn:Fx; [|split; [constructor|intros g []]].
+    destruct (AL (GOp o) (or_introl eq_refl)) as (x' & Fx' & Ex). rewrite Fx in Fx'. injection Fx' as <-.
+    destruct (res_facts o x Fx Ex) as [NDr PR].
+    destruct (wf_opregs s W o x Fx Ex) as (NDg & M1 & _).
+    assert (PG : forall r, In r (o_regions x) -> gpar s (GRegion r) = Some (GOp o)).
+    { intros r Ir. destruct (M1 r Ir) as (rr & Fr & Pr). simpl. rewrite Fr, Pr. reflexivity. }
+    assert (AR : forall r, In r (o_regions x) -> anc s (S k0) (GRegion r) root).
+    { intros r Ir. econstructor; [apply PG; exact Ir|exact A0]. }
+    assert (ALr : forall r, In r (o_regions x) -> all_live s (collect_region f s r)).
+    { intros r Ir. eapply all_live_sub; [exact AL|]. intros g Ig. right. apply in_or_app. right.
+      apply in_flat_map. eauto. }
+    assert (EF : forall g, In g (flat_map (collect_region f s) (o_regions x)) ->
+              exists r j, In r (o_regions x) /\ anc s j g (GRegion r)).
+    { intros g Ig. apply in_flat_map in Ig. destruct Ig as (r & Ir & Ig).
+      destruct (NR r _ (AR r Ir) (ALr r Ir)) as [_ En]. destruct (En g Ig) as (j & Aj). eauto. }
+    assert (EV : forall g, In g (map GValue (o_results x)) -> anc s 1 g (GOp o)).
+    { intros g Ig. apply in_map_iff in Ig. destruct Ig as (v & <- & Iv). apply anc_one. apply PR. exact Iv. }
+    split.
+    - constructor.
+      + intro I. apply in_app_or in I. destruct I as [I|I].
+        * apply in_map_iff in I. destruct I as (v & E & _). discriminate.
+        * destruct (EF _ I) as (r & j & Ir & Aj).
+          pose proof (anc_trans _ _ _ _ Aj _ _ (anc_one _ _ _ (PG r Ir))) as B. rewrite Nat.add_1_r in B.
+          eapply desc_neq; eauto.
+      + apply NoDup_app_intro.
+        * apply NoDup_values. exact NDr.
+        * apply NoDup_flat_map_disj; [exact NDg| |].
+          { intros r Ir. apply (NR r _ (AR r Ir) (ALr r Ir)). }
+          { intros r1 r2 g I1 I2 G1 G2.
+            destruct (NR r1 _ (AR r1 I1) (ALr r1 I1)) as [_ E1]. destruct (E1 g G1) as (j1 & B1).
+            destruct (NR r2 _ (AR r2 I2) (ALr r2 I2)) as [_ E2]. destruct (E2 g G2) as (j2 & B2).
+            destruct (sib_disj _ _ _ _ _ _ _ _ Rt (AR r1 I1) (AR r2 I2) B1 B2) as [E _]. injection E as E. exact E. }
+        * intros g I1 I2. pose proof (EV g I1) as B1. destruct (EF g I2) as (r & j & Ir & Aj).
+          pose proof (anc_trans _ _ _ _ Aj _ _ (anc_one _ _ _ (PG r Ir))) as B2.
+          destruct (sib_disj _ _ _ _ _ _ _ _ Rt A0 A0 B1 B2) as [_ E].
+          assert (j = O) by lia. subst j. inversion Aj; subst.
+          apply in_map_iff in I1. destruct I1 as (v & E1 & _). discriminate.
+    - intros g [<-|Ig]; [exists O; constructor|]. apply in_app_or in Ig. destruct Ig as [Ig|Ig].
+      + exists 1%nat. apply EV. exact Ig.
+      + destruct (EF g Ig) as (r & j & Ir & Aj). exists (j + 1)%nat.
+        eapply anc_trans; [exact Aj|]. apply anc_one. apply PG. exact Ir.
+  Qed.
+
+  Lemma nodup_region_step : forall f, N_blocks f -> N_region (S f).
+  Proof.
+    intros f NB r k0 A0 AL. rewrite collect_region_S in *.
+    destruct (PM.find r (s_regions s)) as [x|] eqn:Fx; [|split; [constructor|intros g []]].
+    destruct (AL (GRegion r) (or_introl eq_refl)) as (x' & Fx' & Ex). rewrite Fx in Fx'. injection Fx' as <-.
+    destruct (wf_region s W r x Fx Ex) as (l & C1 & _ & NDl & M1 & _).
+    assert (ALb : all_live s (collect_blocks_from f s (r_first x))).
+    { eapply all_live_sub; [exact AL|]. intros g Ig. right. exact Ig. }
+    destruct (NB _ r l k0 A0 C1 NDl M1 ALb) as [NDB EB].
+    assert (PB : forall b, In b l -> gpar s (GBlock b) = Some (GRegion r)).
+    { intros b Ib. destruct (M1 b Ib) as (xb & Fb & Pb). simpl. rewrite Fb, Pb. reflexivity. }
+    split.
+    - constructor; [|exact NDB]. intro I. destruct (EB _ I) as (b & j & Ib & Aj).
+      pose proof (anc_trans _ _ _ _ Aj _ _ (anc_one _ _ _ (PB b Ib))) as B. rewrite Nat.add_1_r in B.
+      eapply desc_neq; eauto.
+    - intros g [<-|Ig]; [exists O; constructor|]. destruct (EB g Ig) as (b & j & Ib & Aj). exists (j + 1)%nat.
+      eapply anc_trans; [exact Aj|]. apply anc_one. apply PB. exact Ib.
+  Qed.
+
+  Lemma nodup_block_step : forall f, N_ops f -> N_block (S f).
+  Proof.
+    intros f NO b k0 A0 AL. rewrite collect_block_S in *.
+    destruct (PM.find b (s_blocks s)) as [x|] eqn:Fx; [|split; [constructor|intros g []]].
+    destruct (AL (GBlock b) (or_introl eq_refl)) as (x' & Fx' & Ex). rewrite Fx in Fx'. injection Fx' as <-.
+    destruct (args_facts b x Fx Ex) as [NDa PA].
+    destruct (wf_block s W b x Fx Ex) as (l & C1 & _ & NDl & M1 & _).
+    assert (ALo : all_live s (collect_ops_from f s (b_first_op x))).
+    { eapply all_live_sub; [exact AL|]. intros g Ig. right. apply in_or_app. right. exact Ig. }
+    destruct (NO _ b l k0 A0 C1 NDl M1 ALo) as [NDO EO].
+    assert (PO : forall o, In o l -> gpar s (GOp o) = Some (GBlock b)).
+    { intros o Io. destruct (M1 o Io) as (xo & Fo & Po). simpl. rewrite Fo, Po. reflexivity. }
+    assert (EV : forall g, In g (map GValue (b_args x)) -> anc s 1 g (GBlock b)).
+    { intros g Ig. apply in_map_iff in Ig. destruct Ig as (v & <- & Iv). apply anc_one. apply PA. exact Iv. }
+    split.
+    - constructor.
+      + intro I. apply in_app_or in I. destruct I as [I|I].
+        * apply in_map_iff in I. destruct I as (v & E & _). discriminate.
+        * destruct (EO _ I) as (o & j & Io & Aj).
+          pose proof (anc_trans _ _ _ _ Aj _ _ (anc_one _ _ _ (PO o Io))) as B. rewrite Nat.add_1_r in B.
+          eapply desc_neq; eauto.
+      + apply NoDup_app_intro; [apply NoDup_values; exact NDa|exact NDO|].
+        intros g I1 I2. pose proof (EV g I1) as B1. destruct (EO g I2) as (o & j & Io & Aj).
+        pose proof (anc_trans _ _ _ _ Aj _ _ (anc_one _ _ _ (PO o Io))) as B2.
+        destruct (sib_disj _ _ _ _ _ _ _ _ Rt A0 A0 B1 B2) as [_ E].
+        assert (j = O) by lia. subst j. inversion Aj; subst.
+        apply in_map_iff in I1. destruct I1 as (v & E1 & _). discriminate.
+    - intros g [<-|Ig]; [exists O; constructor|]. apply in_app_or in Ig. destruct Ig as [Ig|Ig].
+      + exists 1%nat. apply EV. exact Ig.
+      + destruct (EO g Ig) as (o & j & Io & Aj). exists (j + 1)%nat.
+        eapply anc_trans; [exact Aj|]. apply anc_one. apply PO. exact Io.
+  Qed.
+
+  Lemma nodup_blocks_step : forall f, N_block f -> N_blocks f -> N_blocks (S f).
+  Proof.
+    intros f NB NBS cur r l k0 A0 C NDl M AL. rewrite collect_blocks_S in *.
+    destruct cur as [b|]; [|split; [constructor|intros g []]].
+    destruct (PM.find b (s_blocks s)) as [x|] eqn:Fx; [|split; [constructor|intros g []]].
+    inversion C as [|? n l' Nb C']; subst.
+    unfold blk_next, link in Nb. rewrite Fx in Nb. simpl in Nb. injection Nb as <-.
+    inversion NDl as [|? ? Nbl NDl']; subst.
+    apply all_live_app in AL. destruct AL as [AL1 AL2].
+    assert (PB : forall b', In b' (b :: l') -> anc s (S k0) (GBlock b') root).
+    { intros b' Ib. destruct (M b' Ib) as (xb & Fb & Pb). econstructor; [|exact A0]. simpl. rewrite Fb, Pb. reflexivity. }
+    destruct (NB b _ (PB b (or_introl eq_refl)) AL1) as [ND1 E1].
+    destruct (NBS _ r l' k0 A0 C' NDl' (fun b' I' => M b' (or_intror I')) AL2) as [ND2 E2].
+    split.
+    - apply NoDup_app_intro; [exact ND1|exact ND2|].
+      intros g I1 I2. destruct (E1 g I1) as (j1 & B1). destruct (E2 g I2) as (b' & j2 & Ib' & B2).
+      destruct (sib_disj _ _ _ _ _ _ _ _ Rt (PB b (or_introl eq_refl)) (PB b' (or_intror Ib')) B1 B2) as [E _].
+      injection E as ->. contradiction.
+    - intros g Ig. apply in_app_or in Ig. destruct Ig as [Ig|Ig].
+      + destruct (E1 g Ig) as (j & Aj). exists b, j. split; [left; reflexivity|exact Aj].
+      + destruct (E2 g Ig) as (b' & j & Ib' & Aj). exists b', j. split; [right; exact Ib'|exact Aj].
+  Qed.
+
+  Lemma nodup_ops_step : forall f, N_op f -> N_ops f -> N_ops (S f).
+  Proof.
+    intros f NO NOS cur b l k0 A0 C NDl M AL. rewrite collect_ops_S in *.
+    destruct cur as [o|]; [|split; [constructor|intros g []]].
+    destruct (PM.find o (s_ops s)) as [x|] eqn:Fx; [|split; [constructor|intros g []]].
+    inversion C as [|? n l' No C']; subst.
+    unfold op_next, link in No. rewrite Fx in No. simpl in No. injection No as <-.
+    inversion NDl as [|? ? Nol NDl']; subst.
+    apply all_live_app in AL. destruct AL as [AL1 AL2].
+    assert (PO : forall o', In o' (o :: l') -> anc s (S k0) (GOp o') root).
+    { intros o' Io. destruct (M o' Io) as (xo & Fo & Po). econstructor; [|exact A0]. simpl. rewrite Fo, Po. reflexivity. }
+    destruct (NO o _ (PO o (or_introl eq_refl)) AL1) as [ND1 E1].
+    destruct (NOS _ b l' k0 A0 C' NDl' (fun o' I' => M o' (or_intror I')) AL2) as [ND2 E2].
+    split.
+    - apply NoDup_app_intro; [exact ND1|exact ND2|].
+      intros g I1 I2. destruct (E1 g I1) as (j1 & B1). destruct (E2 g I2) as (o' & j2 & Io' & B2).
+      destruct (sib_disj _ _ _ _ _ _ _ _ Rt (PO o (or_introl eq_refl)) (PO o' (or_intror Io')) B1 B2) as [E _].
+      injection E as ->. contradiction.
+    - intros g Ig. apply in_app_or in Ig. destruct Ig as [Ig|Ig].
+      + destruct (E1 g Ig) as (j & Aj). exists o, j. split; [left; reflexivity|exact Aj].
+      + destruct (E2 g Ig) as (o' & j & Io' & Aj). exists o', j. split; [right; exact Io'|exact Aj].
+  Qed.
+
+  Lemma nodup_collect : forall f, N_op f /\ N_region f /\ N_blocks f /\ N_block f /\ N_ops f.
+  Proof.
+    induction f as [|f (I1 & I2 & I3 & I4 & I5)].
+    - unfold N_op, N_region, N_blocks, N_block, N_ops.
+      split; [|split; [|split; [|split]]]; simpl; intros; (split; [constructor|intros g []]).
+    - split; [apply nodup_op_step; assumption|]. split; [apply nodup_region_step; assumption|].
+      split; [apply nodup_blocks_step; assumption|]. split; [apply nodup_block_step; assumption|].
+      apply nodup_ops_step; assumption.
+  Qed.
+End Distinct.
+
+Lemma collect_op_NoDup : forall s o x, WF s -> PM.find o (s_ops s) = Some x -> o_parent x = None ->
+  forall f, all_live s (collect_op f s o) -> NoDup (collect_op f s o).
+Proof.
+  intros s o x W F P f AL.
+  assert (Rt : gpar s (GOp o) = None) by (simpl; rewrite F, P; reflexivity).
+  exact (proj1 (proj1 (nodup_collect s W (GOp o) Rt f) o O (anc0 s (GOp o)) AL)).
+Qed.
+
+Lemma Inv_init : forall s, Uabs s (real_slot s) -> Inv s [] s.
+Proof.
+  intros s UA. split.
+  - constructor; simpl; try reflexivity; [apply agree_refl|apply fr_A].
+  - eapply Uabs_slots; [|exact UA]. intros h o i u. unfold minus_ops. simpl. tauto.
+Qed.
+
+(* Operation.erase of an op with an arbitrary tree of regions below it *)
+Lemma op_erase_tree_nodup_WF : forall s s' o safe r,
+  WF s ->
+  all_live s (collect_op (fuel_of s) s o) ->
+  NoDup (collect_op (fuel_of s) s o) ->
+  op_erase o safe true s = (s', Ok r) -> WF s'.
+Proof.
+  intros s s' o safe r W AL ND H. unfold op_erase in H.
+  apply bind_ok in H as (s0 & x & Hg & H). apply getO_ok in Hg as [-> Fx].
+  apply bind_ok in H as (s0 & [] & Ha & H). apply assert_ok in Ha as [-> Pa].
+  apply negb_true_iff in Pa. apply is_some_false in Pa.
+  apply bind_ok in H as (s0 & dead & Hd & H). apply gets_ok in Hd as [-> ->].
+  apply bind_ok in H as (s0 & fl & Hf & H). unfold get_fuel in Hf. apply gets_ok in Hf as [-> ->].
+  set (D := collect_op (fuel_of s) s o) in *.
+  apply bind_ok in H as (s2 & [] & Hdrop & H). simpl in Hdrop.
+  destruct (UWF_Uabs s (WF_UWF s W)) as [UA LN].
+  assert (OL : ops_live s D) by (intros i Ii; exact (AL (GOp i) Ii)).
+  assert (ND' : NoDup ([] ++ D ++ [])) by (simpl; rewrite app_nil_r; exact ND).
+  pose proof (proj1 (walk s UA LN (wf_disjoint s W) (fuel_of s)) o [] [] s s2 tt ND' (Inv_init s UA) OL Hdrop) as I2.
+  simpl in I2.
+  pose proof (proj1 (closure s W (fuel_of s)) o AL) as CL. fold D in CL.
+  pose proof (markS_markT D s2) as MK.
+  pose proof (fin_WF s s2 (markS D s2) o x D W Fx Pa CL I2 MK) as W2.
+  assert (HR2 : MT D s2 (markS D s2)).
+  { split; [exact MK|]. intros v G. apply gmem_In in G.
+    destruct I2 as [[_ _ _ _ T5] _]. destruct T5 as (_ & _ & _ & _ & _ & _ & _ & _ & K4 & _). rewrite K4.
+    destruct (wf_alloc s W) as (_ & _ & _ & B4 & _).
+    destruct (CL _ G) as [E|[(o' & x' & Io & Fo & Iv)|(b & xb & Ib & Fb & Iv)]]; [discriminate| |].
+    - destruct (AL _ Io) as (x'' & Fo' & Eo). rewrite Fo in Fo'. injection Fo' as <-.
+      destruct (In_nth_error _ _ Iv) as (k & Nk).
+      destruct (wf_results s W o' x' Fo Eo k v Nk) as (vr & Fv & _). eapply B4; eauto.
+    - destruct (AL _ Ib) as (x'' & Fb' & Eb). rewrite Fb in Fb'. injection Fb' as <-.
+      destruct (In_nth_error _ _ Iv) as (k & Nk).
+      destruct (wf_args s W b xb Fb Eb k v Nk) as (vr & Fv & _). eapply B4; eauto. }
+  apply bind_ok in H as (s0 & orec' & Hg & H). apply getO_ok in Hg as [-> Fo'].
+  apply bind_ok in H as (s3 & [] & Hve & Hk).
+  destruct (simT_forM D (o_results orec') (fun v => value_erase v safe) (fun v => simT_value_erase D v safe)
+              _ _ _ _ HR2 Hve) as (t3 & Hve' & [MK3 _]).
+  pose proof (value_erase_loop_WF _ _ _ _ _ W2 Hve') as W3.
+  pose proof (kill_spec _ _ _ _ Hk) as MK'.
+  exact (markT_fun D s3 t3 s' MK3 MK' W3).
+Qed.
+
+(* Operation.erase of a live op with an arbitrary tree of regions below it; the liveness hypothesis says
+   that everything the erase is going to mark (the walk of `collect_op`) is live: erased objects are not
+   reachable from live ones *)
+Theorem op_erase_tree_WF : forall s s' o safe r,
+  WF s ->
+  all_live s (collect_op (fuel_of s) s o) ->
+  op_erase o safe true s = (s', Ok r) -> WF s'.
+Proof.
+  intros s s' o safe r W AL H.
+  assert (exists x, PM.find o (s_ops s) = Some x /\ o_parent x = None) as (x & Fx & Px).
+  { unfold op_erase in H. apply bind_ok in H as (s0 & x & Hg & H). apply getO_ok in Hg as [-> Fx].
+    apply bind_ok in H as (s0 & [] & Ha & _). apply assert_ok in Ha as [_ Pa].
+    apply negb_true_iff in Pa. apply is_some_false in Pa. eauto. }
+  eapply op_erase_tree_nodup_WF; eauto. eapply collect_op_NoDup; eauto.
+Qed.
+
+(* Block.erase_op / Rewriter.erase_op: the liveness hypothesis is about the state after the detach
+   (detach_op rewires the siblings and the parent block of o, which are outside the tree below o) *)
+Theorem erase_op_tree_WF : forall s s' b o safe r,
+  WF s -> blk_live s b -> op_live s o ->
+  (forall s1 r1, detach_op b o s = (s1, Ok r1) -> all_live s1 (collect_op (fuel_of s1) s1 o)) ->
+  erase_op b o safe s = (s', Ok r) -> WF s'.
+Proof.
+  intros s s' b o safe r W BL OL AL H. unfold erase_op in H.
+  apply bind_ok in H as (s1 & o' & Hd & He).
+  pose proof (detach_op_ret _ _ _ _ _ Hd) as ->.
+  pose proof (detach_op_WF _ _ _ _ _ W BL OL Hd) as W1.
+  eapply op_erase_tree_WF; eauto.
+Qed.
+
+Theorem rw_erase_op_tree_WF : forall s s' o safe r,
+  WF s -> op_live s o ->
+  (forall x b, PM.find o (s_ops s) = Some x -> o_parent x = Some b ->
+     blk_live s b /\ forall s1 r1, detach_op b o s = (s1, Ok r1) -> all_live s1 (collect_op (fuel_of s1) s1 o)) ->
+  (forall x, PM.find o (s_ops s) = Some x -> o_parent x = None -> all_live s (collect_op (fuel_of s) s o)) ->
+  rw_erase_op o safe s = (s', Ok r) -> WF s'.
+Proof.
+  intros s s' o safe r W OL HB HN H. unfold rw_erase_op in H.
+  apply bind_ok in H as (s0 & x & Hg & H). apply getO_ok in Hg as [-> Fx].
+  destruct (o_parent x) as [b|] eqn:P.
+  - destruct (HB x b Fx P) as [BL AL]. eapply erase_op_tree_WF; eauto.
+  - eapply op_erase_tree_WF; eauto.
 Qed.
